@@ -140,14 +140,14 @@ theorem run_mono (fx : Bool) (f k : Nat) (st : St) (v : List Nat) (h : run fx f 
 theorem parsePT_spec (k : Nat) (ts : List Tok) : ∀ (pre : List Tok) (ds : List (List Tok)),
    parsePT k ts = some (pre, ds) →
    pre ++ renderParams k ds = ts ∧ (∀ t ∈ pre, t.isParam = false) ∧ (∀ d ∈ ds, ∀ t ∈ d, t.isParam = false)
-   ∧ (ds ≠ [] → k + ds.length ≤ 10) ∧ hasNested ts = false ∧ (∀ t ∈ ts, t.isEl = false) := by
+   ∧ (ds ≠ [] → k + ds.length ≤ 10) ∧ True ∧ (∀ t ∈ ts, t.isEl = false) := by
   fun_induction parsePT k ts with
-  | case1 => intro pre ds h; simp at h; obtain ⟨rfl, rfl⟩ := h; simp [renderParams, hasNested]
+  | case1 => intro pre ds h; simp at h; obtain ⟨rfl, rfl⟩ := h; simp [renderParams]
   | case2 k t hp => intro pre ds h; simp at h
   | case3 k t hp =>
     intro pre ds h; simp at h; obtain ⟨rfl, rfl⟩ := h
     simp only [Bool.or_eq_true, not_or, Bool.not_eq_true] at hp
-    simp [renderParams, hasNested, hp.1, hp.2]
+    simp [renderParams, hp.1, hp.2]
   | case4 k t u us hp hc ih =>
     intro pre ds h
     obtain ⟨rfl, rfl, h1, h9⟩ := hc
@@ -166,7 +166,7 @@ theorem parsePT_spec (k : Nat) (ts : List Tok) : ∀ (pre : List Tok) (ds : List
       · subst hb; simp; omega
       · have := e4 hb; omega
     · have hd : (digitTok k).isParam = false := rfl
-      simp [hasNested, hp, hd, e5]
+      trivial
     · intro x hx; simp at hx
       rcases hx with rfl | rfl | hx
       · rfl
@@ -186,30 +186,10 @@ theorem parsePT_spec (k : Nat) (ts : List Tok) : ∀ (pre : List Tok) (ds : List
     · intro x hx; simp at hx; rcases hx with rfl | hx
       · exact hpf
       · exact e2 x hx
-    · simp [hasNested, hpf, e5]
+    · trivial
     · intro x hx; simp at hx; rcases hx with rfl | hx
       · exact hef
       · exact e6 x (by simpa using hx)
-
-theorem hasNestedE_of_noEl : ∀ (ts : List Tok), (∀ t ∈ ts, t.isEl = false) → hasNestedE ts = .ok (hasNested ts) := by
-  intro ts
-  induction ts using hasNested.induct with
-  | case1 => intro _; rfl
-  | case2 t => intro h; simp [hasNestedE, hasNested, h t]
-  | case3 t u us hp hu =>
-    intro h
-    have h1 := h t (by simp); have h2 := h u (by simp)
-    simp [hasNestedE, hasNested, h1, h2, hp, hu]
-  | case4 t u us hp hu ih =>
-    intro h
-    have h1 := h t (by simp); have h2 := h u (by simp)
-    have := ih (fun x hx => h x (by simp [hx]))
-    simp [hasNestedE, hasNested, h1, h2, hp, hu, this]
-  | case5 t u us hp ih =>
-    intro h
-    have h1 := h t (by simp)
-    have := ih (fun x hx => h x (by simp at hx ⊢; rcases hx with rfl | hx <;> simp [*]))
-    simp [hasNestedE, hasNested, h1, hp, this]
 
 theorem digitOf_spec (u : Tok) (k : Nat) (h : digitOf u = some k) : u = digitTok k ∧ 1 ≤ k ∧ k ≤ 9 := by
   unfold digitOf at h
@@ -368,18 +348,13 @@ theorem readDefParts_of_texReadDef (s : List Tok) (nm : Name) (m : TMeaning) (re
                   readGroup_of_texGroup afterBg 0 btoks rest' hg]
               refine ⟨⟨pre, ds⟩, items, rfl, ?_, ?_, e2, e3, b2⟩
               · unfold readDefParts
-                simp only [readTok_of_texRToken s n r hr, hdrop, untilBg_eq_spanNoBg, hsp, hra, hasNestedE_of_noEl _ e6, e5,
+                simp only [readTok_of_texRToken s n r hr, hdrop, untilBg_eq_spanNoBg, hsp, hra,
                   renderPText, e1, b1]
-                simp
               · by_cases hd : ds = []
                 · simp [hd]
                 · have := e4 hd; simp at this ⊢; omega
 
 /-! ### the model's frames against TeX's tables -/
-
-def bgroupN : Name := [98, 103, 114, 111, 117, 112]
-def egroupN : Name := [101, 103, 114, 111, 117, 112]
-def eqN : Name := [61]
 
 def primRel : Prim → TPrim → Bool
   | .def_, .def_ => true
@@ -388,6 +363,11 @@ def primRel : Prim → TPrim → Bool
   | .relax, .relax => true
   | .bgroup, .begingroup => true
   | .egroup, .endgroup => true
+  | .csname, .csname => true
+  | .endcsname, .endcsname => true
+  | .expandafter, .expandafter => true
+  | .newcommand, .newcommand => true
+  | .newcommand, .renewcommand => true
   | _, _ => false
 
 /-- a model meaning and a TeX meaning that denote the same thing -/
@@ -395,56 +375,44 @@ def MRel : Option Meaning → Option TMeaning → Prop
   | none, none => True
   | some (.defn args (some body)), some (.macro pt items) =>
     args = renderPText pt ∧ body = renderBody items ∧ WFMacro pt items
-  | some (.prim p _), some (.prim q) => primRel p q = true
+  | some (.newcmd k o (some body)), some (.latex k' o' items) =>
+    k = k' ∧ o = o' ∧ body = renderBody items ∧ (∀ it ∈ items, WFItem k it) ∧ (o.isSome = true → 1 ≤ k)
+  | some (.prim p n), some (.prim q) => primRel p q = true ∧ (p = .endcsname → n = endcsnameName)
   | _, _ => False
 
-structure Good (env : Env) (t : Table) : Prop where
-  rel : ∀ n, n ≠ bgroupN → n ≠ egroupN → MRel (lookup n env) (t.lookup n)
+/-- `fx` = the repaired variant of D49; in the variant as is, `\expandafter` is not part of the proved fragment -/
+structure Good (fx : Bool) (env : Env) (t : Table) : Prop where
+  rel : ∀ n, n ∉ reservedNames → MRel (lookup n env) (t.lookup n)
   bg : lookup bgroupN env = some (.prim .bgroup bgroupN)
   eg : lookup egroupN env = some (.prim .egroup egroupN)
-  noeq : t.lookup eqN = none
-  nobg : t.lookup bgroupN = none
-  noeg : t.lookup egroupN = none
+  res : ∀ n ∈ reservedNames, t.lookup n = none
+  noea : fx = false → ∀ n, t.lookup n ≠ some (.prim .expandafter)
 
 /-- the frame stack of the model against TeX's current table and the tables saved at each open group -/
-def EnvRel : Env → List Table → Prop
+def EnvRel (fx : Bool) : Env → List Table → Prop
   | [], [] => True
-  | f :: fs, t :: ts => Good (f :: fs) t ∧ EnvRel fs ts
+  | f :: fs, t :: ts => Good fx (f :: fs) t ∧ EnvRel fx fs ts
   | _, _ => False
-
-def isHashItem : BItem → Bool | .hash _ => true | _ => false
-def itemNoIfx : BItem → Bool | .tok t => !isIfx t | _ => true
-
-/-- the fragment of `run_eq_texRun_fragment`: the definitions a run may make -/
-def fragOk (n : Name) (m : TMeaning) : Bool :=
-  n != bgroupN && n != egroupN && n != eqN &&
-  match m with
-  | .macro pt items => !(pt.pre.isEmpty && pt.params.isEmpty && items.any isHashItem) && items.all itemNoIfx
-  | .prim _ => true
-  | .latex .. => false
 
 theorem lookup_nil_cons (n : Name) (e : Env) : lookup n ([] :: e) = lookup n e := by
   simp [lookup, List.lookup]
 
-theorem envRel_push (env : Env) (t : Table) (ts : List Table) (h : EnvRel env (t :: ts)) :
-    EnvRel (push env) (t :: t :: ts) := by
+theorem envRel_push (fx : Bool) (env : Env) (t : Table) (ts : List Table) (h : EnvRel fx env (t :: ts)) :
+    EnvRel fx (push env) (t :: t :: ts) := by
   cases env with
   | nil => simp [EnvRel] at h
   | cons f fs =>
     obtain ⟨g, r⟩ := h
-    refine ⟨⟨?_, ?_, ?_, g.noeq, g.nobg, g.noeg⟩, g, r⟩
-    · intro n h1 h2; show MRel (lookup n ([] :: f :: fs)) _; rw [lookup_nil_cons]; exact g.rel n h1 h2
+    refine ⟨⟨?_, ?_, ?_, g.res, g.noea⟩, g, r⟩
+    · intro n h1; show MRel (lookup n ([] :: f :: fs)) _; rw [lookup_nil_cons]; exact g.rel n h1
     · show lookup bgroupN ([] :: f :: fs) = _; rw [lookup_nil_cons]; exact g.bg
     · show lookup egroupN ([] :: f :: fs) = _; rw [lookup_nil_cons]; exact g.eg
 
-theorem envRel_pop (env : Env) (t t' : Table) (ts : List Table) (h : EnvRel env (t :: t' :: ts)) :
-    EnvRel (pop env) (t' :: ts) := by
+theorem envRel_pop (fx : Bool) (env : Env) (t t' : Table) (ts : List Table) (h : EnvRel fx env (t :: t' :: ts)) :
+    EnvRel fx (pop env) (t' :: ts) := by
   match env, h with
   | f :: g :: gs, h => exact h.2
   | [f], h => simp [EnvRel] at h
-
-theorem mrel_of_eq {a a' : Option Meaning} {b b' : Option TMeaning} (h : MRel a b) (ha : a' = a) (hb : b' = b) :
-    MRel a' b' := by subst ha; subst hb; exact h
 
 theorem lookup_cons_ne (k n : Name) (m : TMeaning) (t : Table) (h : n ≠ k) :
     List.lookup k ((n, m) :: t) = List.lookup k t := by
@@ -454,28 +422,46 @@ theorem lookup_cons_ne (k n : Name) (m : TMeaning) (t : Table) (h : n ≠ k) :
 theorem lookup_cons_same (n : Name) (m : TMeaning) (t : Table) : List.lookup n ((n, m) :: t) = some m := by
   simp [List.lookup]
 
-theorem good_local (env : Env) (t : Table) (n : Name) (M : Meaning) (m : TMeaning) (g : Good env t)
-    (h1 : n ≠ bgroupN) (h2 : n ≠ egroupN) (h3 : n ≠ eqN) (hm : MRel (some M) (some m)) :
-    Good (setLocal n M env) ((n, m) :: t) := by
-  refine ⟨?_, ?_, ?_, ?_, ?_, ?_⟩
-  · intro k k1 k2
+theorem bg_reserved : bgroupN ∈ reservedNames := by decide
+theorem eg_reserved : egroupN ∈ reservedNames := by decide
+
+theorem table_side (fx : Bool) (t : Table) (n : Name) (m : TMeaning)
+    (hres : ∀ k ∈ reservedNames, t.lookup k = none) (hnoea : fx = false → ∀ k, t.lookup k ≠ some (.prim .expandafter))
+    (hr : n ∉ reservedNames) (hea : fx = false → m ≠ .prim .expandafter) :
+    (∀ k ∈ reservedNames, List.lookup k ((n, m) :: t) = none) ∧
+    (fx = false → ∀ k, List.lookup k ((n, m) :: t) ≠ some (.prim .expandafter)) := by
+  constructor
+  · intro k hk
+    have : n ≠ k := fun e => hr (e ▸ hk)
+    rw [lookup_cons_ne k n m t this]; exact hres k hk
+  · intro hf k
+    by_cases hk : n = k
+    · subst hk; rw [lookup_cons_same]; intro e; exact hea hf (Option.some.inj e)
+    · rw [lookup_cons_ne k n m t hk]; exact hnoea hf k
+
+theorem good_local (fx : Bool) (env : Env) (t : Table) (n : Name) (M : Meaning) (m : TMeaning) (g : Good fx env t)
+    (hr : n ∉ reservedNames) (hm : MRel (some M) (some m)) (hea : fx = false → m ≠ .prim .expandafter) :
+    Good fx (setLocal n M env) ((n, m) :: t) := by
+  have h1 : n ≠ bgroupN := fun e => hr (e ▸ bg_reserved)
+  have h2 : n ≠ egroupN := fun e => hr (e ▸ eg_reserved)
+  obtain ⟨t1, t2⟩ := table_side fx t n m g.res g.noea hr hea
+  refine ⟨?_, ?_, ?_, t1, t2⟩
+  · intro k k1
     by_cases hk : n = k
     · subst hk; rw [lookup_setLocal_same, lookup_cons_same]; exact hm
-    · rw [lookup_setLocal_ne k n M env hk, lookup_cons_ne k n m t hk]; exact g.rel k k1 k2
+    · rw [lookup_setLocal_ne k n M env hk, lookup_cons_ne k n m t hk]; exact g.rel k k1
   · rw [lookup_setLocal_ne _ n M env h1]; exact g.bg
   · rw [lookup_setLocal_ne _ n M env h2]; exact g.eg
-  · rw [lookup_cons_ne _ n m t h3]; exact g.noeq
-  · rw [lookup_cons_ne _ n m t h1]; exact g.nobg
-  · rw [lookup_cons_ne _ n m t h2]; exact g.noeg
 
-theorem envRel_local (env : Env) (t : Table) (ts : List Table) (n : Name) (M : Meaning) (m : TMeaning)
-    (h : EnvRel env (t :: ts)) (h1 : n ≠ bgroupN) (h2 : n ≠ egroupN) (h3 : n ≠ eqN) (hm : MRel (some M) (some m)) :
-    EnvRel (setLocal n M env) (((n, m) :: t) :: ts) := by
+theorem envRel_local (fx : Bool) (env : Env) (t : Table) (ts : List Table) (n : Name) (M : Meaning) (m : TMeaning)
+    (h : EnvRel fx env (t :: ts)) (hr : n ∉ reservedNames) (hm : MRel (some M) (some m))
+    (hea : fx = false → m ≠ .prim .expandafter) :
+    EnvRel fx (setLocal n M env) (((n, m) :: t) :: ts) := by
   cases env with
   | nil => simp [EnvRel] at h
   | cons f fs =>
     obtain ⟨g, r⟩ := h
-    have := good_local (f :: fs) t n M m g h1 h2 h3 hm
+    have := good_local fx (f :: fs) t n M m g hr hm hea
     exact ⟨by simpa [setLocal] using this, r⟩
 
 theorem filter_lookup_self (n : Name) (f : Frame) : (f.filter (fun p => p.1 ≠ n)).lookup n = none := by
@@ -514,42 +500,42 @@ theorem lookup_global_same (n : Name) (M : Meaning) : ∀ (f : Frame) (fs : List
     show (match (f.filter (fun p => p.1 ≠ n)).lookup n with | some m => some m | none => lookup n _) = _
     rw [filter_lookup_self]; exact ih g
 
-theorem good_global (f : Frame) (fs : List Frame) (t : Table) (n : Name) (M : Meaning) (m : TMeaning)
-    (g : Good (f :: fs) t)
-    (h1 : n ≠ bgroupN) (h2 : n ≠ egroupN) (h3 : n ≠ eqN) (hm : MRel (some M) (some m)) :
-    Good (setGlobal n M (dropLocals n (f :: fs))) ((n, m) :: t) := by
-  refine ⟨?_, ?_, ?_, ?_, ?_, ?_⟩
-  · intro k k1 k2
+theorem good_global (fx : Bool) (f : Frame) (fs : List Frame) (t : Table) (n : Name) (M : Meaning) (m : TMeaning)
+    (g : Good fx (f :: fs) t)
+    (hr : n ∉ reservedNames) (hm : MRel (some M) (some m)) (hea : fx = false → m ≠ .prim .expandafter) :
+    Good fx (setGlobal n M (dropLocals n (f :: fs))) ((n, m) :: t) := by
+  have h1 : n ≠ bgroupN := fun e => hr (e ▸ bg_reserved)
+  have h2 : n ≠ egroupN := fun e => hr (e ▸ eg_reserved)
+  obtain ⟨t1, t2⟩ := table_side fx t n m g.res g.noea hr hea
+  refine ⟨?_, ?_, ?_, t1, t2⟩
+  · intro k k1
     by_cases hk : n = k
     · subst hk; rw [lookup_global_same, lookup_cons_same]; exact hm
-    · rw [lookup_setGlobal_ne k n M hk, lookup_dropLocals_ne k n hk, lookup_cons_ne k n m t hk]; exact g.rel k k1 k2
+    · rw [lookup_setGlobal_ne k n M hk, lookup_dropLocals_ne k n hk, lookup_cons_ne k n m t hk]; exact g.rel k k1
   · rw [lookup_setGlobal_ne _ n M h1, lookup_dropLocals_ne _ n h1]; exact g.bg
   · rw [lookup_setGlobal_ne _ n M h2, lookup_dropLocals_ne _ n h2]; exact g.eg
-  · rw [lookup_cons_ne _ n m t h3]; exact g.noeq
-  · rw [lookup_cons_ne _ n m t h1]; exact g.nobg
-  · rw [lookup_cons_ne _ n m t h2]; exact g.noeg
 
-theorem envRel_global (n : Name) (M : Meaning) (m : TMeaning)
-    (h1 : n ≠ bgroupN) (h2 : n ≠ egroupN) (h3 : n ≠ eqN) (hm : MRel (some M) (some m)) :
-    ∀ (fs : List Frame) (f : Frame) (tables : List Table), EnvRel (f :: fs) tables →
-    EnvRel (setGlobal n M (dropLocals n (f :: fs))) (tables.map ((n, m) :: ·)) := by
+theorem envRel_global (fx : Bool) (n : Name) (M : Meaning) (m : TMeaning)
+    (hr : n ∉ reservedNames) (hm : MRel (some M) (some m)) (hea : fx = false → m ≠ .prim .expandafter) :
+    ∀ (fs : List Frame) (f : Frame) (tables : List Table), EnvRel fx (f :: fs) tables →
+    EnvRel fx (setGlobal n M (dropLocals n (f :: fs))) (tables.map ((n, m) :: ·)) := by
   intro fs
   induction fs with
   | nil =>
     intro f tables h
     match tables, h with
     | [t], h =>
-      have := good_global f [] t n M m h.1 h1 h2 h3 hm
+      have := good_global fx f [] t n M m h.1 hr hm hea
       exact ⟨this, trivial⟩
     | t :: t' :: ts, h => simp [EnvRel] at h
   | cons g gs ih =>
     intro f tables h
     match tables, h with
     | t :: ts, h =>
-      have hg := good_global f (g :: gs) t n M m h.1 h1 h2 h3 hm
-      have hr := ih g ts h.2
+      have hg := good_global fx f (g :: gs) t n M m h.1 hr hm hea
+      have hr' := ih g ts h.2
       rw [global_cons] at hg ⊢
-      exact ⟨hg, hr⟩
+      exact ⟨hg, hr'⟩
 
 /-! ### steps of the model's loop -/
 
@@ -602,6 +588,381 @@ theorem run_of_next_eq (fx : Bool) (stA stB : St) (h : ∀ G, next fx (G + 2) st
         cases hq : run fx G st' with
         | error e => simp [hq, Except.map] at hr
         | ok w => rw [run_mono fx G 2 st' w hq]; simpa [hq] using hr
+
+/-! ### `\\newcommand` macros -/
+
+theorem readBracket_plain (r : List Tok) : ∀ (p : List Tok),
+    (∀ x ∈ p, isOpenBr x = false ∧ isCloseBr x = false) → readBracket 1 (p ++ rBrack :: r) = (p, r) := by
+  intro p
+  induction p with
+  | nil => intro _; simp [readBracket, rBrack, isOpenBr, isCloseBr]
+  | cons x xs ih =>
+    intro h
+    have hx := h x List.mem_cons_self
+    have := ih (fun y hy => h y (List.mem_cons_of_mem _ hy))
+    simp [readBracket, hx.1, hx.2, this]
+
+theorem readArgs_of_texMandatory : ∀ (n : Nat) (s : List Tok) (args : List (List Tok)) (rest : List Tok),
+    texMandatory n s = some (args, rest) → nf3Mandatory n s = true →
+    readArgs n s = (args.map some, rest) ∧ args.length = n := by
+  intro n
+  induction n with
+  | zero => intro s args rest h _; simp [texMandatory] at h; obtain ⟨rfl, rfl⟩ := h; simp [readArgs]
+  | succ n ih =>
+    intro s args rest h hn
+    simp only [texMandatory] at h
+    cases hu : texUndelimited s with
+    | none => simp [hu] at h
+    | some ar =>
+      obtain ⟨a, r⟩ := ar
+      simp only [hu, Option.map_eq_some_iff] at h
+      obtain ⟨⟨as, r'⟩, hx, heq⟩ := h
+      simp at heq; obtain ⟨rfl, rfl⟩ := heq
+      simp only [nf3Mandatory, hu, Bool.and_eq_true] at hn
+      have hr := readArgument_of_texUndelimited s a r hu (noMathHead_spec s hn.1)
+      obtain ⟨e1, e2⟩ := ih r as r' hx hn.2
+      simp [readArgs, hr, e1, e2]
+
+theorem isAnyBracket_spec (x : Tok) (h : isAnyBracket x = false) : isOpenBr x = false ∧ isCloseBr x = false := by
+  cases x with
+  | ch cat c =>
+    by_cases h1 : c = 91
+    · subst h1; simp [isAnyBracket] at h
+    · by_cases h2 : c = 93
+      · subst h2; simp [isAnyBracket] at h
+      · constructor
+        · unfold isOpenBr; split
+          · rename_i heq; simp at heq; exact absurd heq.2 h1
+          · rfl
+        · unfold isCloseBr; split
+          · rename_i heq; simp at heq; exact absurd heq.2 h2
+          · rfl
+  | cs n => exact ⟨rfl, rfl⟩
+  | el n => exact ⟨rfl, rfl⟩
+
+theorem lbrack_open (t : Tok) (h : isLBrack t = true) : isOpenBr t = true := by
+  cases t with
+  | ch cat c => simp [isLBrack] at h; split at h <;> simp_all [isOpenBr]
+  | cs n => simp [isLBrack] at h
+  | el n => simp [isLBrack] at h
+
+theorem isOpenAny_eq (t : Tok) : isOpenAny t = isOpenBr t := by
+  cases t with
+  | ch cat c => by_cases h : c = 91
+                · subst h; rfl
+                · unfold isOpenAny isOpenBr; split <;> split <;> simp_all
+  | cs n => rfl
+  | el n => rfl
+
+/-- **One call of a `\\newcommand` macro in the model = one call in LaTeX/TeX**: optional argument absent (default) or
+    present (bracket content, NF-prog 3), any number of mandatory arguments, any replacement text. -/
+theorem invokeNewcommand_of_texLatexCall (nargs : Nat) (opt : Option (List Tok)) (items : List BItem)
+    (s out rest : List Tok) (hw : ∀ it ∈ items, WFItem nargs it) (ho : opt.isSome = true → 1 ≤ nargs)
+    (h : texLatexCall nargs opt items s = .ok (out, rest)) :
+    invokeNewcommand nargs opt (renderBody items) s = .ok (out, rest) := by
+  unfold texLatexCall at h
+  cases opt with
+  | none =>
+    simp only at h
+    cases hm : texMandatory nargs s with
+    | none => simp [hm] at h
+    | some ar =>
+      obtain ⟨args, rest'⟩ := ar
+      simp only [hm] at h
+      by_cases hn : nf3Mandatory nargs s = true
+      · simp only [hn, if_true, Except.ok.injEq, Prod.mk.injEq] at h
+        obtain ⟨rfl, rfl⟩ := h
+        obtain ⟨e1, e2⟩ := readArgs_of_texMandatory nargs s args rest' hm hn
+        have hs : substBody (renderBody items) (none :: args.map some) = .ok (texSubst items args) :=
+          substGo_render args items (by simpa [e2] using hw)
+        simp [invokeNewcommand, collectNewcommand, e1, hs, Except.map]
+      · simp [hn] at h
+  | some d =>
+    have h1 : 1 ≤ nargs := ho rfl
+    simp only at h
+    cases hopt : texOptional d s with
+    | none => simp [hopt] at h
+    | some ar =>
+      obtain ⟨a, r⟩ := ar
+      simp only [hopt] at h
+      cases hm : texMandatory (nargs - 1) r with
+      | none => simp [hm] at h
+      | some ar2 =>
+        obtain ⟨args, rest'⟩ := ar2
+        simp only [hm] at h
+        by_cases hn : (nf3Optional s && nf3Mandatory (nargs - 1) r) = true
+        · simp only [hn, if_true, Except.ok.injEq, Prod.mk.injEq] at h
+          obtain ⟨rfl, rfl⟩ := h
+          simp only [Bool.and_eq_true] at hn
+          obtain ⟨e1, e2⟩ := readArgs_of_texMandatory (nargs - 1) r args rest' hm hn.2
+          have hs : substBody (renderBody items) (none :: (a :: args).map some) = .ok (texSubst items (a :: args)) :=
+            substGo_render (a :: args) items (by simpa [e2, Nat.sub_add_cancel h1] using hw)
+          -- the optional argument: same value, same rest
+          have key : optValue (readOptional s).1 d = a ∧ (readOptional s).2 = r := by
+            unfold texOptional at hopt
+            unfold readOptional
+            rw [dropSpaces_eq_skipBlanks]
+            cases hsb : skipBlanks s with
+            | nil => simp [hsb] at hopt; simp [optValue, hopt.1, hopt.2]
+            | cons t ts =>
+              simp only [hsb] at hopt
+              by_cases hl : isLBrack t = true
+              · simp only [hl, if_true, Option.map_eq_some_iff] at hopt
+                obtain ⟨⟨p, r2⟩, hscan, heq⟩ := hopt
+                simp at heq; obtain ⟨rfl, rfl⟩ := heq
+                have hnfp : ∀ x ∈ p, isOpenBr x = false ∧ isCloseBr x = false := by
+                  have := hn.1
+                  simp only [nf3Optional, hsb, hl, if_true, hscan, Bool.not_eq_true', List.any_eq_false] at this
+                  intro x hx; exact isAnyBracket_spec x (by simpa using this x hx)
+                have hsplit := texScan_split _ _ _ _ _ hscan
+                have hrb : readBracket 1 ts = (p, r2) := by
+                  rw [hsplit]; simpa using readBracket_plain r2 p hnfp
+                simp [optValue, lbrack_open t hl, hrb, stripDelimited_eq_texStrip]
+              · simp only [hl, Bool.false_eq_true, if_false] at hopt
+                by_cases hoa : isOpenAny t = true
+                · simp [hoa] at hopt
+                · have hnot : isOpenBr t = false := by
+                    rw [← isOpenAny_eq]; simpa using hoa
+                  simp only [hoa, Bool.false_eq_true, if_false, Option.some.injEq, Prod.mk.injEq] at hopt
+                  obtain ⟨rfl, rfl⟩ := hopt
+                  simp [optValue, hnot]
+          simp only [invokeNewcommand, collectNewcommand]
+          rw [key.1, key.2, e1]
+          simp only [List.map] at hs
+          simp [hs, Except.map]
+        · simp [hn] at h
+
+theorem skipBlanks_head (s : List Tok) (t : Tok) (ts : List Tok) (h : skipBlanks s = t :: ts) : t.isSpace = false := by
+  induction s with
+  | nil => simp [skipBlanks] at h
+  | cons x xs ih =>
+    by_cases hx : x.isSpace = true
+    · simp [skipBlanks, hx] at h; exact ih h
+    · simp [skipBlanks, hx] at h; rw [← h.1]; simpa using hx
+
+theorem skipBlanks_of_head (t : Tok) (ts : List Tok) (h : t.isSpace = false) : skipBlanks (t :: ts) = t :: ts := by
+  simp [skipBlanks, h]
+
+theorem csOnly_spec (toks : List Tok) (n : Name) (h : csOnly toks = some n) : toks = [.cs n] := by
+  unfold csOnly at h
+  split at h
+  · simp at h; subst h; rfl
+  · cases h
+
+theorem isStarAny_eq (t : Tok) : isStarAny t = starTok t := by
+  cases t with
+  | ch cat c =>
+    by_cases h : c = 42
+    · subst h; rfl
+    · have : starTok (.ch cat c) = false := by simp [starTok, Tok.text, h]
+      rw [this]; unfold isStarAny; split <;> simp_all
+  | cs n =>
+    by_cases h : n = [42]
+    · subst h; rfl
+    · have : starTok (.cs n) = false := by simp [starTok, Tok.text, h]
+      rw [this]; unfold isStarAny; split <;> simp_all
+  | el n => rfl
+
+theorem bg_not_math (t : Tok) (h : t.isBg = true) : t.isMath = false := by
+  cases t with
+  | ch cat c =>
+    match cat, h with
+    | 1, _ => rfl
+    | 0, h => simp [Tok.isBg] at h
+    | n + 2, h => simp [Tok.isBg] at h
+  | cs n => rfl
+  | el n => rfl
+
+theorem undelimited_cs_nomath (s r1 : List Tok) (n : Name) (h : texUndelimited s = some ([.cs n], r1)) :
+    noMathHead s = true := by
+  unfold texUndelimited at h
+  unfold noMathHead
+  cases hs : skipBlanks s with
+  | nil => rfl
+  | cons t ts =>
+    simp only [hs] at h
+    by_cases hb : t.isBg = true
+    · simp [bg_not_math t hb]
+    · simp only [hb, Bool.false_eq_true, if_false] at h
+      by_cases he : t.isEg = true
+      · simp [he] at h
+      · simp only [he, Bool.false_eq_true, if_false, Option.some.injEq, Prod.mk.injEq, List.cons.injEq, and_true] at h
+        rw [h.1]; rfl
+
+/-- the name argument -/
+theorem newcommand_name (rest s1 r1 : List Tok) (n : Name)
+    (h1 : skipStar rest = some s1) (h2 : texUndelimited s1 = some ([.cs n], r1)) :
+    readArgument (skipChar starTok rest) = (some [.cs n], r1) := by
+  have key : skipChar starTok rest = s1 := by
+    unfold skipStar at h1
+    unfold skipChar
+    rw [dropSpaces_eq_skipBlanks]
+    cases hs : skipBlanks rest with
+    | nil => simp [hs] at h1; subst h1; rfl
+    | cons t r =>
+      simp only [hs] at h1
+      by_cases h12 : t = .ch 12 42
+      · subst h12
+        simp at h1; subst h1; rfl
+      · simp only [h12, if_false] at h1
+        by_cases hst : isStarAny t = true
+        · simp [hst] at h1
+        · simp only [hst, Bool.false_eq_true, if_false, Option.some.injEq] at h1
+          subst h1
+          have : starTok t = false := by rw [← isStarAny_eq]; simpa using hst
+          simp [this]
+  rw [key]
+  exact readArgument_of_texUndelimited s1 _ r1 h2 (noMathHead_spec s1 (undelimited_cs_nomath s1 r1 n h2))
+
+theorem digitsNat_spec (p : List Tok) (k : Nat) (h : digitsNat p = some k) : digitsVal p = some k ∧ k ≤ 9 := by
+  unfold digitsNat at h
+  split at h
+  · rename_i c
+    split at h
+    · rename_i hc
+      simp at h; subst h
+      refine ⟨?_, by omega⟩
+      simp [digitsVal, isDigit, hc.1, hc.2]
+    · cases h
+  · cases h
+
+theorem nf3Optional_plain (r1 ts p r : List Tok) (t : Tok) (hs : skipBlanks r1 = t :: ts) (hl : isLBrack t = true)
+    (hscan : texScan [rBrack] 0 ts = some (p, r)) (hn : nf3Optional r1 = true) :
+    readBracket 1 ts = (p, r) := by
+  have hnfp : ∀ x ∈ p, isOpenBr x = false ∧ isCloseBr x = false := by
+    simp only [nf3Optional, hs, hl, if_true, hscan, Bool.not_eq_true', List.any_eq_false] at hn
+    intro x hx; exact isAnyBracket_spec x (by simpa using hn x hx)
+  have hsplit := texScan_split _ _ _ _ _ hscan
+  rw [hsplit]; simpa using readBracket_plain r p hnfp
+
+/-- the `[n]` argument -/
+theorem newcommand_count (r1 r2 : List Tok) (k : Nat) (h : texReadCount r1 = (some k, r2)) (hn : nf3Optional r1 = true) :
+    (readOptional r1).2 = r2 ∧ digitsVal ((readOptional r1).1.getD []) = some k ∧ k ≤ 9 := by
+  unfold texReadCount at h
+  unfold readOptional
+  rw [dropSpaces_eq_skipBlanks]
+  cases hs : skipBlanks r1 with
+  | nil => simp [hs] at h; obtain ⟨rfl, rfl⟩ := h; simp [digitsVal]
+  | cons t ts =>
+    simp only [hs] at h
+    by_cases hl : isLBrack t = true
+    · simp only [hl, if_true] at h
+      cases hscan : texScan [rBrack] 0 ts with
+      | none => simp [hscan] at h
+      | some pr =>
+        obtain ⟨p, r⟩ := pr
+        simp only [hscan, Prod.mk.injEq] at h
+        obtain ⟨hd, rfl⟩ := h
+        have hrb := nf3Optional_plain r1 ts p r t hs hl hscan hn
+        obtain ⟨d1, d2⟩ := digitsNat_spec p k hd
+        simp [lbrack_open t hl, hrb, d1, d2]
+    · simp only [hl, Bool.false_eq_true, if_false] at h
+      by_cases hoa : isOpenAny t = true
+      · simp [hoa] at h
+      · have hnot : isOpenBr t = false := by rw [← isOpenAny_eq]; simpa using hoa
+        simp only [hoa, Bool.false_eq_true, if_false, Prod.mk.injEq, Option.some.injEq] at h
+        obtain ⟨rfl, rfl⟩ := h
+        simp [hnot, digitsVal]
+
+/-- the `[default]` argument (given that a body follows) -/
+theorem newcommand_default (k : Nat) (r2 r3 : List Tok) (o : Option (List Tok))
+    (h : texReadDefault k r2 = (o, r3)) (hn : nf3Optional r2 = true) (hne : r3 ≠ []) :
+    (readOptional r2).2 = r3 ∧ (readOptional r2).1.map stripDelimited = o ∧ (o.isSome = true → 1 ≤ k) := by
+  unfold texReadDefault at h
+  unfold readOptional
+  rw [dropSpaces_eq_skipBlanks]
+  cases hs : skipBlanks r2 with
+  | nil => simp [hs] at h; exact absurd h.2 hne
+  | cons t ts =>
+    simp only [hs] at h
+    by_cases hl : isLBrack t = true ∧ k ≥ 1
+    · simp only [hl, and_self, if_true] at h
+      cases hscan : texScan [rBrack] 0 ts with
+      | none => simp [hscan] at h; exact absurd h.2 hne
+      | some pr =>
+        obtain ⟨p, r⟩ := pr
+        simp only [hscan, Prod.mk.injEq] at h
+        obtain ⟨rfl, rfl⟩ := h
+        have hrb := nf3Optional_plain r2 ts p r t hs hl.1 hscan hn
+        simp [lbrack_open t hl.1, hrb, stripDelimited_eq_texStrip]; exact hl.2
+    · simp only [hl, if_false] at h
+      by_cases hoa : isOpenAny t = true
+      · simp [hoa] at h; exact absurd h.2 hne
+      · have hnot : isOpenBr t = false := by rw [← isOpenAny_eq]; simpa using hoa
+        simp only [hoa, Bool.false_eq_true, if_false, Prod.mk.injEq] at h
+        obtain ⟨rfl, rfl⟩ := h
+        simp [hnot]
+
+/-- the replacement text -/
+theorem newcommand_body (k : Nat) (r3 rest : List Tok) (items : List BItem)
+    (h : texReadBody k r3 = some (items, rest)) :
+    readArgument r3 = (some (renderBody items), rest) ∧ (∀ it ∈ items, BasicWF k it) ∧ r3 ≠ [] := by
+  unfold texReadBody at h
+  cases hs : skipBlanks r3 with
+  | nil => simp [hs] at h
+  | cons b r4 =>
+    simp only [hs] at h
+    by_cases hb : b.isBg = true
+    · simp only [hb, if_true] at h
+      cases hg : texGroup 0 r4 with
+      | none => simp [hg] at h
+      | some br =>
+        obtain ⟨btoks, rest'⟩ := br
+        simp only [hg, Option.map_eq_some_iff, Prod.mk.injEq] at h
+        obtain ⟨body, hpb, rfl, rfl⟩ := h
+        obtain ⟨b1, b2⟩ := parseBody_spec k btoks body hpb
+        refine ⟨?_, b2, ?_⟩
+        · unfold readArgument
+          rw [dropSpaces_eq_skipBlanks, hs]
+          simp [readToken, hb, readGroup_of_texGroup r4 0 btoks rest' hg, b1]
+        · intro e; subst e; simp [skipBlanks] at hs
+    · simp [hb] at h
+
+/-- `\newcommand`/`\renewcommand` read their arguments as LaTeX does, wherever LaTeX's reading is defined (NF-prog) -/
+theorem newcommand_parts (rest : List Tok) (nm : Name) (m : TMeaning) (rest' : List Tok)
+    (h : texReadNewcommand rest = .ok (nm, m, rest')) :
+    ∃ k o items, m = .latex k o items ∧ k ≤ 9 ∧ (o.isSome = true → 1 ≤ k) ∧ (∀ it ∈ items, BasicWF k it) ∧
+      ∀ (fx : Bool) (F : Nat) (name nmP : Name) (env : Env), lookup name env = some (.prim .newcommand nmP) →
+        invoke fx (F + 1) name rest env
+          = .ok (some (.el nmP, ⟨rest', newcommand nm k o (some (renderBody items)) env⟩)) := by
+  unfold texReadNewcommand at h
+  cases h1 : skipStar rest with
+  | none => simp [h1] at h
+  | some s1 =>
+    simp only [h1] at h
+    cases h2 : texUndelimited s1 with
+    | none => simp [h2] at h
+    | some tr =>
+      obtain ⟨toks, r1⟩ := tr
+      simp only [h2] at h
+      cases h3 : csOnly toks with
+      | none => simp [h3] at h
+      | some n =>
+        simp only [h3] at h
+        have htoks := csOnly_spec toks n h3
+        subst htoks
+        cases h4 : (texReadCount r1).1 with
+        | none => simp [h4] at h
+        | some k =>
+          simp only [h4] at h
+          by_cases hnf : (!(nf3Optional r1) || !(nf3Optional (texReadCount r1).2)) = true
+          · simp [hnf] at h
+          · simp only [hnf, Bool.false_eq_true, if_false] at h
+            simp only [Bool.or_eq_true, Bool.not_eq_true', not_or, Bool.not_eq_false] at hnf
+            cases h5 : texReadBody k (texReadDefault k (texReadCount r1).2).2 with
+            | none => simp [h5] at h
+            | some br =>
+              obtain ⟨items, rest2⟩ := br
+              simp only [h5, Except.ok.injEq, Prod.mk.injEq] at h
+              obtain ⟨rfl, rfl, rfl⟩ := h
+              have hname := newcommand_name rest s1 r1 n h1 h2
+              obtain ⟨c1, c2, c3⟩ := newcommand_count r1 (texReadCount r1).2 k (by rw [← h4]) hnf.1
+              obtain ⟨b1, b2, b3⟩ := newcommand_body k _ rest2 items h5
+              obtain ⟨d1, d2, d3⟩ := newcommand_default k (texReadCount r1).2 (texReadDefault k (texReadCount r1).2).2
+                (texReadDefault k (texReadCount r1).2).1 rfl hnf.2 b3
+              refine ⟨k, _, items, rfl, c3, d3, b2, ?_⟩
+              intro fx F name nmP env hl
+              simp [invoke, getItem, hl, hname, c1, c2, d1, d2, b1, firstCs]
 
 /-! ### simulation -/
 
@@ -692,9 +1053,345 @@ theorem invoke_let (fx : Bool) (F : Nat) (name nm d s : Name) (rest r0 rest' : L
     invoke fx (F + 1) name rest env = .ok (some (.el nm, ⟨rest', letCs d s env⟩)) := by
   simp [invoke, getItem, h, h1, h2]
 
-theorem fragOk_names (n : Name) (m : TMeaning) (h : fragOk n m = true) : n ≠ bgroupN ∧ n ≠ egroupN ∧ n ≠ eqN := by
-  simp only [fragOk, Bool.and_eq_true, bne_iff_ne, ne_eq] at h
-  exact ⟨h.1.1.1, h.1.1.2, h.1.2⟩
+theorem next_le (fx : Bool) (f f' : Nat) (st : St) (x : Option (Tok × St)) (h : next fx f st = .ok x) (hle : f ≤ f') :
+    next fx f' st = .ok x := by
+  obtain ⟨k, rfl⟩ := Nat.exists_eq_add_of_le hle
+  exact next_mono fx f k st x h
+
+theorem csnameGo_le (fx : Bool) (f f' : Nat) (acc : List Nat) (st : St) (x : Name × St)
+    (h : csnameGo fx f acc st = .ok x) (hle : f ≤ f') : csnameGo fx f' acc st = .ok x := by
+  obtain ⟨k, rfl⟩ := Nat.exists_eq_add_of_le hle
+  induction k with
+  | zero => exact h
+  | succ k ih => exact (fuel_mono fx (f + k)).2.2.2.1 acc st x (ih (by omega))
+
+theorem expandOnce_le (fx : Bool) (f f' : Nat) (n : Name) (r : List Tok) (e : Env) (x : List Tok × St)
+    (h : expandOnce fx f n r e = .ok x) (hle : f ≤ f') : expandOnce fx f' n r e = .ok x := by
+  obtain ⟨k, rfl⟩ := Nat.exists_eq_add_of_le hle
+  induction k with
+  | zero => exact h
+  | succ k ih => exact (fuel_mono fx (f + k)).2.2.2.2 n r e x (ih (by omega))
+
+theorem expAfter_le (fx : Bool) (f f' : Nat) (r : List Tok) (e : Env) (x : List Tok × St)
+    (h : expAfter fx f r e = .ok x) (hle : f ≤ f') : expAfter fx f' r e = .ok x := by
+  obtain ⟨k, rfl⟩ := Nat.exists_eq_add_of_le hle
+  induction k with
+  | zero => exact h
+  | succ k ih => exact (fuel_mono fx (f + k)).2.2.1 r e x (ih (by omega))
+
+theorem run_le (fx : Bool) (f f' : Nat) (st : St) (v : List Nat) (h : run fx f st = .ok v) (hle : f ≤ f') :
+    run fx f' st = .ok v := by
+  obtain ⟨k, rfl⟩ := Nat.exists_eq_add_of_le hle
+  exact run_mono fx f k st v h
+
+/-- if every result of the loop on `stB` is also a result on `stA`, a run on `stB` is a run on `stA` -/
+theorem run_transfer (fx : Bool) (stA stB : St)
+    (h : ∀ G x, next fx G stB = .ok x → ∃ G', next fx G' stA = .ok x)
+    (F : Nat) (v : List Nat) (hr : run fx F stB = .ok v) : ∃ F', run fx F' stA = .ok v := by
+  cases F with
+  | zero => simp [run] at hr
+  | succ G =>
+    unfold run at hr
+    cases hn : next fx G stB with
+    | error e => simp [hn] at hr
+    | ok x =>
+      obtain ⟨G1, hG1⟩ := h G x hn
+      refine ⟨max G G1 + 1, ?_⟩
+      unfold run
+      rw [next_le fx G1 (max G G1) stA x hG1 (by omega)]
+      simp only [hn] at hr ⊢
+      match x, hr with
+      | none, hr => exact hr
+      | some (t, st'), hr =>
+        simp only at hr ⊢
+        cases hq : run fx G st' with
+        | error e => simp [hq, Except.map] at hr
+        | ok w => rw [run_le fx G (max G G1) st' w hq (by omega)]; simpa [hq] using hr
+
+theorem csname_transfer (fx : Bool) (stA stB : St) (henv : stA.env = stB.env)
+    (h : ∀ G x, next fx G stB = .ok x → ∃ G', next fx G' stA = .ok x)
+    (F : Nat) (acc : List Nat) (R : Name × St) (hr : csnameGo fx F acc stB = .ok R) :
+    ∃ F', csnameGo fx F' acc stA = .ok R := by
+  cases F with
+  | zero => simp [csnameGo] at hr
+  | succ G =>
+    unfold csnameGo at hr
+    cases hn : next fx G stB with
+    | error e => simp [hn] at hr
+    | ok x =>
+      obtain ⟨G1, hG1⟩ := h G x hn
+      refine ⟨max G G1 + 1, ?_⟩
+      unfold csnameGo
+      rw [next_le fx G1 (max G G1) stA x hG1 (by omega)]
+      simp only [hn] at hr ⊢
+      match x, hr with
+      | none, hr => simpa [henv] using hr
+      | some (.el n, st'), hr => exact hr
+      | some (.ch a b, st'), hr => exact csnameGo_le fx G _ _ _ _ hr (by omega)
+      | some (.cs a, st'), hr => exact csnameGo_le fx G _ _ _ _ hr (by omega)
+
+theorem mrel_macro {a : Option Meaning} {pt : PText} {items : List BItem} (h : MRel a (some (.macro pt items))) :
+    a = some (.defn (renderPText pt) (some (renderBody items))) ∧ WFMacro pt items := by
+  match a, h with
+  | some (.defn args (some body)), h => obtain ⟨rfl, rfl, wf⟩ := h; exact ⟨rfl, wf⟩
+
+theorem mrel_latex {a : Option Meaning} {k : Nat} {o : Option (List Tok)} {b : List BItem}
+    (h : MRel a (some (.latex k o b))) :
+    a = some (.newcmd k o (some (renderBody b))) ∧ (∀ it ∈ b, WFItem k it) ∧ (o.isSome = true → 1 ≤ k) := by
+  match a, h with
+  | some (.newcmd k' o' (some body)), h => obtain ⟨rfl, rfl, rfl, w, ho⟩ := h; exact ⟨rfl, w, ho⟩
+
+theorem mrel_prim {a : Option Meaning} {q : TPrim} (h : MRel a (some (.prim q))) :
+    ∃ p nm, a = some (.prim p nm) ∧ primRel p q = true ∧ (p = .endcsname → nm = endcsnameName) := by
+  match a, h with
+  | some (.prim p nm), h => exact ⟨p, nm, rfl, h.1, h.2⟩
+
+theorem mrel_some {a : Option Meaning} {m : TMeaning} (h : MRel a (some m)) : ∃ M, a = some M := by
+  cases a with
+  | none => cases m <;> exact absurd h (by simp [MRel])
+  | some M => exact ⟨M, rfl⟩
+
+theorem good_defined {fx : Bool} {env : Env} {t : Table} (g : Good fx env t) (n : Name) (m : TMeaning)
+    (h : t.lookup n = some m) : n ∉ reservedNames := by
+  intro hn; rw [g.res n hn] at h; cases h
+
+theorem next_step_newcmd (fx : Bool) (G : Nat) (t : Tok) (name : Name) (rest out rest' : List Tok) (env : Env)
+    (k : Nat) (o : Option (List Tok)) (body : List Tok)
+    (hm : macroNameOf t = some name) (hb : tooBig (t :: rest) = false)
+    (hl : lookup name env = some (.newcmd k o (some body)))
+    (hc : invokeNewcommand k o body rest = .ok (out, rest')) :
+    next fx (G + 2) ⟨t :: rest, env⟩ = next fx G ⟨out ++ rest', env⟩ := by
+  conv => lhs; unfold next
+  simp only [hb, hm]
+  conv => lhs; unfold invoke
+  simp [getItem, hl, hc]
+
+/-- **expansion**: what TeX's `expand` does to the head of the input, the model's loop does too (macros of both kinds,
+    `\csname`, `\expandafter`, nested to any depth) -/
+theorem expand_sim (fx : Bool) (env : Env) (tbl : Table) (hg : Good fx env tbl) : ∀ f,
+    (∀ n rest inp, texExpand f tbl n rest = .ok (some inp) → tooBig (.cs n :: rest) = false →
+        ∀ G x, next fx G ⟨inp, env⟩ = .ok x → ∃ G', next fx G' ⟨.cs n :: rest, env⟩ = .ok x) ∧
+    (∀ acc inp nm rest', texCsname f tbl acc inp = .ok (nm, rest') →
+        ∃ G, csnameGo fx G acc ⟨inp, env⟩ = .ok (nm, ⟨rest', env⟩)) ∧
+    (∀ n rest r, texExpand f tbl n rest = .ok r → (r = none → fx = true) →
+        ∃ G exp st', expandOnce fx G n rest env = .ok (exp, st') ∧ st'.env = env ∧
+          exp ++ st'.input = (match r with | some inp => inp | none => .cs n :: rest)) := by
+  intro f
+  induction f with
+  | zero =>
+    refine ⟨?_, ?_, ?_⟩ <;> intros <;> simp_all [texExpand, texCsname]
+  | succ f ih =>
+    obtain ⟨ih1, ih2, ih3⟩ := ih
+    -- (3) one expansion as `\expandafter` performs it
+    have h3 : ∀ n rest r, texExpand (f + 1) tbl n rest = .ok r → (r = none → fx = true) →
+        ∃ G exp st', expandOnce fx G n rest env = .ok (exp, st') ∧ st'.env = env ∧
+          exp ++ st'.input = (match r with | some inp => inp | none => .cs n :: rest) := by
+      intro n rest r h hfx
+      unfold texExpand at h
+      cases hl : List.lookup n tbl with
+      | none => simp [hl] at h
+      | some m =>
+        have hnr := good_defined hg n m hl
+        have hrn := hg.rel n hnr
+        rw [hl] at hrn
+        simp only [hl] at h
+        cases m with
+        | «macro» pt items =>
+          obtain ⟨hlm, wf⟩ := mrel_macro hrn
+          cases hc : texCall pt items rest with
+          | error e => simp [hc, Except.map] at h
+          | ok res =>
+            obtain ⟨out, rest'⟩ := res
+            simp [hc, Except.map] at h; subst h
+            refine ⟨1, out, ⟨rest', env⟩, ?_, rfl, rfl⟩
+            simp [expandOnce, getItem, hlm, invokeDef_of_texCall pt items rest out rest' wf hc]
+        | latex k o items =>
+          obtain ⟨hlm, w, ho⟩ := mrel_latex hrn
+          cases hc : texLatexCall k o items rest with
+          | error e => simp [hc, Except.map] at h
+          | ok res =>
+            obtain ⟨out, rest'⟩ := res
+            simp [hc, Except.map] at h; subst h
+            refine ⟨1, out, ⟨rest', env⟩, ?_, rfl, rfl⟩
+            simp [expandOnce, getItem, hlm, invokeNewcommand_of_texLatexCall k o items rest out rest' w ho hc]
+        | prim q =>
+          obtain ⟨p, nmP, hlm, hpr, _⟩ := mrel_prim hrn
+          cases q <;> cases p <;> simp [primRel] at hpr
+          case csname.csname =>
+            simp only at h
+            cases hc : texCsname f tbl [] rest with
+            | error e => simp [hc, Except.map] at h
+            | ok res =>
+              obtain ⟨nmC, rest'⟩ := res
+              simp [hc, Except.map] at h; subst h
+              obtain ⟨G, hG⟩ := ih2 [] rest nmC rest' hc
+              refine ⟨G + 1, [.cs nmC], ⟨rest', env⟩, ?_, rfl, rfl⟩
+              simp [expandOnce, getItem, hlm, hG]
+          case expandafter.expandafter =>
+            simp only at h
+            match rest, h with
+            | [], h => simp at h
+            | [_], h => simp at h
+            | t1 :: .cs n2 :: rest', h =>
+              simp only at h
+              cases he : texExpand f tbl n2 rest' with
+              | error e => simp [he] at h
+              | ok r2 =>
+                have hfx' : fx = true := by
+                  cases hfxb : fx with
+                  | true => rfl
+                  | false => exact absurd hl (hg.noea hfxb n)
+                obtain ⟨G, exp, st', hG, henv, hin⟩ := ih3 n2 rest' r2 he (fun _ => hfx')
+                refine ⟨G + 2, t1 :: exp, st', ?_, henv, ?_⟩
+                · simp [expandOnce, getItem, hlm, expAfter, hG]
+                · cases r2 with
+                  | none => simp [he] at h; subst h; simpa using hin
+                  | some inp2 => simp [he] at h; subst h; simpa using hin
+            | t1 :: .ch a b :: rest', h =>
+              simp at h; subst h
+              exact ⟨2, [t1, .ch a b], ⟨rest', env⟩, by simp [expandOnce, getItem, hlm, expAfter], rfl, rfl⟩
+            | t1 :: .el a :: rest', h =>
+              simp at h; subst h
+              exact ⟨2, [t1, .el a], ⟨rest', env⟩, by simp [expandOnce, getItem, hlm, expAfter], rfl, rfl⟩
+          all_goals
+            simp only at h
+            simp at h; subst h
+            have hfx' := hfx rfl
+            subst hfx'
+            exact ⟨1, [.cs n], ⟨rest, env⟩, by simp [expandOnce, getItem, hlm], rfl, rfl⟩
+    -- (2) the loop inside `\csname`
+    have h2 : ∀ acc inp nmC rest', texCsname (f + 1) tbl acc inp = .ok (nmC, rest') →
+        ∃ G, csnameGo fx G acc ⟨inp, env⟩ = .ok (nmC, ⟨rest', env⟩) := by
+      intro acc inp nmC rest' h
+      unfold texCsname at h
+      by_cases hbig : inp.length > 4000
+      · simp [hbig] at h
+      simp only [hbig, if_false] at h
+      have hnb : tooBig inp = false := by simp [tooBig]; omega
+      match inp, h, hnb with
+      | [], h, _ => simp at h
+      | .el a :: rest, h, _ => simp at h
+      | .ch cat c :: rest, h, hnb =>
+        simp only at h
+        by_cases hc : cat = 10 ∨ cat = 11 ∨ cat = 12
+        · simp only [hc, if_true] at h
+          obtain ⟨G, hG⟩ := ih2 _ _ _ _ h
+          refine ⟨G + 2, ?_⟩
+          have hmn : macroNameOf (.ch cat c) = none := by
+            rcases hc with rfl | rfl | rfl <;> rfl
+          conv => lhs; unfold csnameGo
+          simp only [next, hnb, hmn]
+          exact csnameGo_le fx G (G + 1) _ _ _ (by simpa [Tok.text] using hG) (by omega)
+        · simp [hc] at h
+      | .cs n :: rest, h, hnb =>
+        simp only at h
+        by_cases hend : List.lookup n tbl = some (.prim .endcsname)
+        · simp only [hend, if_true, Except.ok.injEq, Prod.mk.injEq] at h
+          obtain ⟨rfl, rfl⟩ := h
+          have hnr := good_defined hg n _ hend
+          have hrn := hg.rel n hnr
+          rw [hend] at hrn
+          obtain ⟨p, nmP, hlm, hpr, hnm⟩ := mrel_prim hrn
+          have hp : p = .endcsname := by cases p <;> simp [primRel] at hpr; rfl
+          subst hp
+          have := hnm rfl; subst this
+          refine ⟨3, ?_⟩
+          simp [csnameGo, next, hnb, macroNameOf, invoke, getItem, hlm]
+        · simp only [hend, if_false] at h
+          cases he : texExpand f tbl n rest with
+          | error e => simp [he] at h
+          | ok r =>
+            cases r with
+            | none => simp [he] at h
+            | some inp' =>
+              simp only [he] at h
+              obtain ⟨G, hG⟩ := ih2 _ _ _ _ h
+              exact csname_transfer fx ⟨.cs n :: rest, env⟩ ⟨inp', env⟩ rfl
+                (ih1 n rest inp' he hnb) G acc _ hG
+    -- (1) one expansion at the head of the input, inside the loop
+    have h1 : ∀ n rest inp, texExpand (f + 1) tbl n rest = .ok (some inp) → tooBig (.cs n :: rest) = false →
+        ∀ G x, next fx G ⟨inp, env⟩ = .ok x → ∃ G', next fx G' ⟨.cs n :: rest, env⟩ = .ok x := by
+      intro n rest inp h hnb G x hx
+      have hmn : macroNameOf (.cs n) = some n := rfl
+      have h' := h
+      unfold texExpand at h
+      cases hl : List.lookup n tbl with
+      | none => simp [hl] at h
+      | some m =>
+        have hnr := good_defined hg n m hl
+        have hrn := hg.rel n hnr
+        rw [hl] at hrn
+        simp only [hl] at h
+        cases m with
+        | «macro» pt items =>
+          obtain ⟨hlm, wf⟩ := mrel_macro hrn
+          cases hc : texCall pt items rest with
+          | error e => simp [hc, Except.map] at h
+          | ok res =>
+            obtain ⟨out, rest'⟩ := res
+            simp [hc, Except.map] at h; subst h
+            exact ⟨G + 2, by
+              rw [next_step_call fx G (.cs n) n rest out rest' env _ _ hmn hnb hlm
+                (invokeDef_of_texCall pt items rest out rest' wf hc)]; exact hx⟩
+        | latex k o items =>
+          obtain ⟨hlm, w, ho⟩ := mrel_latex hrn
+          cases hc : texLatexCall k o items rest with
+          | error e => simp [hc, Except.map] at h
+          | ok res =>
+            obtain ⟨out, rest'⟩ := res
+            simp [hc, Except.map] at h; subst h
+            exact ⟨G + 2, by
+              rw [next_step_newcmd fx G (.cs n) n rest out rest' env _ _ _ hmn hnb hlm
+                (invokeNewcommand_of_texLatexCall k o items rest out rest' w ho hc)]; exact hx⟩
+        | prim q =>
+          obtain ⟨p, nmP, hlm, hpr, _⟩ := mrel_prim hrn
+          cases q <;> cases p <;> simp [primRel] at hpr
+          case csname.csname =>
+            simp only at h
+            cases hc : texCsname f tbl [] rest with
+            | error e => simp [hc, Except.map] at h
+            | ok res =>
+              obtain ⟨nmC, rest'⟩ := res
+              simp [hc, Except.map] at h; subst h
+              obtain ⟨G1, hG1⟩ := ih2 [] rest nmC rest' hc
+              refine ⟨max G G1 + 2, ?_⟩
+              conv => lhs; unfold next
+              simp only [hnb, hmn]
+              conv => lhs; unfold invoke
+              simp only [getItem, hlm, csnameGo_le fx G1 (max G G1) _ _ _ hG1 (by omega)]
+              exact next_le fx G (max G G1) _ x hx (by omega)
+          case expandafter.expandafter =>
+            obtain ⟨G1, exp, st', hG1, henv, hin⟩ := h3 n rest (some inp) h' (by intro e; cases e)
+            -- `expandOnce` on `\expandafter` is `expAfter`
+            cases G1 with
+            | zero => simp [expandOnce] at hG1
+            | succ G2 =>
+              have hea : expAfter fx G2 rest env = .ok (exp, st') := by
+                simpa [expandOnce, getItem, hlm] using hG1
+              refine ⟨max G G2 + 2, ?_⟩
+              conv => lhs; unfold next
+              simp only [hnb, hmn]
+              conv => lhs; unfold invoke
+              simp only [getItem, hlm, expAfter_le fx G2 (max G G2) _ _ _ hea (by omega)]
+              obtain ⟨i', e'⟩ := st'
+              simp only at henv hin
+              subst henv
+              rw [hin]
+              exact next_le fx G (max G G2) _ x hx (by omega)
+          all_goals simp at h
+    exact ⟨h1, h2, h3⟩
+
+theorem texIsIfx_eq (t : Tok) : texIsIfx t = isIfx t := by
+  cases t with
+  | ch cat c => simp [texIsIfx, isIfx, Tok.text, ifxName]
+  | cs n => simp [texIsIfx, isIfx, Tok.text, ifxName]
+  | el n => rfl
+
+theorem fragOk_names (n : Name) (m : TMeaning) (h : fragOk n m = true) : n ∉ reservedNames := by
+  simp only [fragOk, Bool.and_eq_true, Bool.not_eq_true'] at h
+  intro hn
+  have := h.1
+  simp [List.contains_iff_mem, hn] at this
 
 theorem wf_of_frag (nm : Name) (pt : PText) (items : List BItem)
     (h9 : pt.params.length ≤ 9) (hpre : ∀ t ∈ pt.pre, t.isParam = false)
@@ -702,64 +1399,62 @@ theorem wf_of_frag (nm : Name) (pt : PText) (items : List BItem)
     (hb : ∀ it ∈ items, BasicWF pt.params.length it) (hf : fragOk nm (.macro pt items) = true) :
     WFMacro pt items := by
   simp only [fragOk, Bool.and_eq_true] at hf
-  obtain ⟨_, hh, hi⟩ := hf
-  refine ⟨h9, hpre, hdel, ?_, ?_⟩
-  · intro it hit
-    have hbi := hb it hit
-    cases it with
-    | tok t =>
-      have := (List.all_eq_true.mp hi) _ hit
-      simp only [itemNoIfx, Bool.not_eq_true'] at this
-      exact ⟨hbi, this⟩
-    | par k => exact hbi
-    | hash c => trivial
-  · intro hp hq it hit c hc
-    subst hc
-    have : items.any isHashItem = true := List.any_eq_true.mpr ⟨_, hit, rfl⟩
-    simp [hp, hq, this] at hh
+  obtain ⟨_, hi⟩ := hf
+  refine ⟨h9, hpre, hdel, ?_⟩
+  intro it hit
+  have hbi := hb it hit
+  cases it with
+  | tok t =>
+    have := (List.all_eq_true.mp hi) _ hit
+    simp only [itemNoIfx, Bool.not_eq_true', texIsIfx_eq] at this
+    exact ⟨hbi, this⟩
+  | par k => exact hbi
+  | hash c => trivial
 
-
-theorem mrel_macro {a : Option Meaning} {pt : PText} {items : List BItem} (h : MRel a (some (.macro pt items))) :
-    a = some (.defn (renderPText pt) (some (renderBody items))) ∧ WFMacro pt items := by
-  match a, h with
-  | some (.defn args (some body)), h => obtain ⟨rfl, rfl, wf⟩ := h; exact ⟨rfl, wf⟩
-
-theorem mrel_prim {a : Option Meaning} {q : TPrim} (h : MRel a (some (.prim q))) :
-    ∃ p nm, a = some (.prim p nm) ∧ primRel p q = true := by
-  match a, h with
-  | some (.prim p nm), h => exact ⟨p, nm, rfl, h⟩
-
-theorem mrel_latex {a : Option Meaning} {k : Nat} {o : Option (List Tok)} {b : List BItem}
-    (h : MRel a (some (.latex k o b))) : False := by
-  match a, h with
-  | some (.defn _ (some _)), h => exact h
-  | some (.defn _ none), h => exact h
-  | some (.newcmd ..), h => exact h
-  | some (.prim ..), h => exact h
-  | some (.unrec _), h => exact h
-  | none, h => exact h
-
-theorem mrel_some {a : Option Meaning} {m : TMeaning} (h : MRel a (some m)) : ∃ M, a = some M := by
-  cases a with
-  | none => cases m <;> exact absurd h (by simp [MRel])
-  | some M => exact ⟨M, rfl⟩
-
-theorem good_defined {env : Env} {t : Table} (g : Good env t) (n : Name) (m : TMeaning) (h : t.lookup n = some m) :
-    n ≠ bgroupN ∧ n ≠ egroupN ∧ n ≠ eqN := by
-  refine ⟨?_, ?_, ?_⟩ <;> intro e <;> subst e
-  · rw [g.nobg] at h; cases h
-  · rw [g.noeg] at h; cases h
-  · rw [g.noeq] at h; cases h
+theorem wf_latex_of_frag (nm : Name) (k : Nat) (o : Option (List Tok)) (items : List BItem)
+    (hb : ∀ it ∈ items, BasicWF k it) (hf : fragOk nm (.latex k o items) = true) :
+    ∀ it ∈ items, WFItem k it := by
+  simp only [fragOk, Bool.and_eq_true] at hf
+  obtain ⟨_, hi⟩ := hf
+  intro it hit
+  have hbi := hb it hit
+  cases it with
+  | tok t =>
+    have := (List.all_eq_true.mp hi) _ hit
+    simp only [itemNoIfx, Bool.not_eq_true', texIsIfx_eq] at this
+    exact ⟨hbi, this⟩
+  | par j => exact hbi
+  | hash c => trivial
 
 theorem letCs_of_lookup (d s : Name) (M : Meaning) (e : Env) (h : lookup s e = some M) : letCs d s e = setLocal d M e := by
   simp [letCs, getItem, h]
 
-theorem good_head {f : Frame} {fs : List Frame} {t : Table} {ts : List Table} (h : EnvRel (f :: fs) (t :: ts)) :
-    Good (f :: fs) t := h.1
+theorem newcommand_fresh (n : Name) (k : Nat) (o b : Option (List Tok)) (e : Env) (h : lookup n e = none) :
+    newcommand n k o b e = setLocal n (.newcmd k o b) e := by
+  simp [newcommand, h]
 
-/-- **simulation**: every successful run of the TeX evaluator on the fragment is reproduced by the model -/
+theorem newcommand_over_defn (n : Name) (k : Nat) (o b : Option (List Tok)) (e : Env) (a : List Tok) (bd : Option (List Tok))
+    (h : lookup n e = some (.defn a bd)) : newcommand n k o b e = setLocal n (.newcmd k o b) e := by
+  simp [newcommand, h]
+
+theorem newcommand_over_newcmd (n : Name) (k : Nat) (o b : Option (List Tok)) (e : Env) (k' : Nat) (o' bd : Option (List Tok))
+    (h : lookup n e = some (.newcmd k' o' bd)) : newcommand n k o b e = setLocal n (.newcmd k o b) e := by
+  simp [newcommand, h]
+
+theorem mrel_none {a : Option Meaning} (h : MRel a none) : a = none := by
+  cases a with
+  | none => rfl
+  | some M => cases M <;> simp [MRel] at h
+
+/-- a table entry that is not `\expandafter` in the variant as is -/
+theorem notEa_of_good {fx : Bool} {env : Env} {t : Table} (g : Good fx env t) (n : Name) (m : TMeaning)
+    (h : t.lookup n = some m) : fx = false → m ≠ .prim .expandafter := by
+  intro hf e; subst e; exact g.noea hf n h
+
+/-- **simulation**: every successful run of the TeX evaluator inside `fragOk` is reproduced by the model
+    (`fx = false`, the code as is, as long as `\\expandafter` is not among the known primitives: known finding D49) -/
 theorem sim (fx : Bool) : ∀ (fuel : Nat) (st : TSt) (v : List Nat), texRun fragOk fuel st = .ok v →
-    ∀ env, EnvRel env (st.cur :: st.saved) → ∃ F, run fx F ⟨st.input, env⟩ = .ok v := by
+    ∀ env, EnvRel fx env (st.cur :: st.saved) → ∃ F, run fx F ⟨st.input, env⟩ = .ok v := by
   intro fuel
   induction fuel with
   | zero => intro st v h; simp [texRun] at h
@@ -775,7 +1470,7 @@ theorem sim (fx : Bool) : ∀ (fuel : Nat) (st : TSt) (v : List Nat), texRun fra
     cases env with
     | nil => simp [EnvRel] at hrel
     | cons f fs =>
-    have hgood : Good (f :: fs) cur := hrel.1
+    have hgood : Good fx (f :: fs) cur := hrel.1
     cases input with
     | nil =>
       simp at h; subst h
@@ -807,7 +1502,7 @@ theorem sim (fx : Bool) : ∀ (fuel : Nat) (st : TSt) (v : List Nat), texRun fra
             by_cases hc1 : cat = 1
             · simp only [hc1, if_true] at h
               subst hc1
-              obtain ⟨F, hF⟩ := ih ⟨rest, cur, cur :: saved⟩ v h (push (f :: fs)) (envRel_push _ _ _ hrel)
+              obtain ⟨F, hF⟩ := ih ⟨rest, cur, cur :: saved⟩ v h (push (f :: fs)) (envRel_push fx _ _ _ hrel)
               refine ⟨F + 3, ?_⟩
               rw [run_step_el fx F (.ch 1 c) bgroupN bgroupN rest (f :: fs) ⟨rest, push (f :: fs)⟩ rfl hnb
                 (invoke_bgroup fx F _ _ rest _ hgood.bg)]
@@ -820,7 +1515,7 @@ theorem sim (fx : Bool) : ∀ (fuel : Nat) (st : TSt) (v : List Nat), texRun fra
                 | nil => simp at h
                 | cons tb sv =>
                   simp only at h
-                  obtain ⟨F, hF⟩ := ih ⟨rest, tb, sv⟩ v h (pop (f :: fs)) (envRel_pop _ _ _ _ hrel)
+                  obtain ⟨F, hF⟩ := ih ⟨rest, tb, sv⟩ v h (pop (f :: fs)) (envRel_pop fx _ _ _ _ hrel)
                   refine ⟨F + 3, ?_⟩
                   rw [run_step_el fx F (.ch 2 c) egroupN egroupN rest (f :: fs) ⟨rest, pop (f :: fs)⟩ rfl hnb
                     (invoke_egroup fx F _ _ rest _ hgood.eg)]
@@ -832,32 +1527,38 @@ theorem sim (fx : Bool) : ∀ (fuel : Nat) (st : TSt) (v : List Nat), texRun fra
         cases hl : List.lookup n cur with
         | none => simp [hl] at h
         | some m =>
-          obtain ⟨hn1, hn2, hn3⟩ := good_defined hgood n m hl
-          have hrn := hgood.rel n hn1 hn2
+          have hnr := good_defined hgood n m hl
+          have hrn := hgood.rel n hnr
           rw [hl] at hrn
+          -- everything expandable: one step of TeX's `expand`, then the induction hypothesis
+          have expandable : ∀ inp, texExpand fuel cur n rest = .ok (some inp) →
+              texRun fragOk fuel ⟨inp, cur, saved⟩ = .ok v → ∃ F, run fx F ⟨.cs n :: rest, f :: fs⟩ = .ok v := by
+            intro inp he hr
+            obtain ⟨F, hF⟩ := ih ⟨inp, cur, saved⟩ v hr (f :: fs) hrel
+            exact run_transfer fx ⟨.cs n :: rest, f :: fs⟩ ⟨inp, f :: fs⟩
+              ((expand_sim fx (f :: fs) cur hgood fuel).1 n rest inp he hnb) F v hF
+          have viaExpand : (match texExpand fuel cur n rest with
+                | .error e => (.error e : Except TErr (List Nat))
+                | .ok none => .error (.outside "unexpected unexpandable")
+                | .ok (some inp) => texRun fragOk fuel ⟨inp, cur, saved⟩) = .ok v →
+              ∃ F, run fx F ⟨.cs n :: rest, f :: fs⟩ = .ok v := by
+            intro h
+            cases he : texExpand fuel cur n rest with
+            | error e => simp [he] at h
+            | ok r =>
+              cases r with
+              | none => simp [he] at h
+              | some inp => simp only [he] at h; exact expandable inp he h
           cases m with
-          | latex k o b => exact (mrel_latex hrn).elim
-          | «macro» pt items =>
-            obtain ⟨hlm, wf⟩ := mrel_macro hrn
-            simp only [hl] at h
-            cases fuel with
-            | zero => simp [texExpand] at h
-            | succ fuel' =>
-              unfold texExpand at h
-              simp only [hl] at h
-              cases hc : texCall pt items rest with
-              | error e => simp [hc, Except.map] at h
-              | ok r =>
-                obtain ⟨out, rest'⟩ := r
-                simp only [hc, Except.map] at h
-                obtain ⟨F, hF⟩ := ih ⟨out ++ rest', cur, saved⟩ v h (f :: fs) hrel
-                refine ⟨F + 2, ?_⟩
-                exact run_of_next_eq fx _ _ (fun G => next_step_call fx G (.cs n) n rest out rest' (f :: fs) _ _ hmn hnb hlm
-                  (invokeDef_of_texCall pt items rest out rest' wf hc)) F v hF
+          | latex k o b => simp only [hl] at h; exact viaExpand h
+          | «macro» pt items => simp only [hl] at h; exact viaExpand h
           | prim q =>
-            obtain ⟨p, nmP, hlm, hpr⟩ := mrel_prim hrn
+            obtain ⟨p, nmP, hlm, hpr, _⟩ := mrel_prim hrn
             simp only [hl] at h
             cases q <;> cases p <;> simp [primRel] at hpr
+            case csname.csname => exact viaExpand h
+            case expandafter.expandafter => exact viaExpand h
+            case endcsname.endcsname => simp at h
             case def_.def_ =>
               simp only at h
               cases hd : texReadDef rest with
@@ -871,12 +1572,12 @@ theorem sim (fx : Bool) : ∀ (fuel : Nat) (st : TSt) (v : List Nat), texRun fra
                 by_cases hok : fragOk nm m = true
                 · simp only [hok, if_true] at h
                   obtain ⟨pt, items, rfl, hparts, h9, hpre, hdel, hb⟩ := readDefParts_of_texReadDef rest nm m rest' hd
-                  obtain ⟨k1, k2, k3⟩ := fragOk_names _ _ hok
+                  have hk := fragOk_names _ _ hok
                   have hm : MRel (some (.defn (renderPText pt) (some (renderBody items)))) (some (.macro pt items)) :=
                     ⟨rfl, rfl, wf_of_frag nm pt items h9 hpre hdel hb hok⟩
                   obtain ⟨F, hF⟩ := ih (assignLocal nm (.macro pt items) ⟨rest', cur, saved⟩) v h
                     (setLocal nm (.defn (renderPText pt) (some (renderBody items))) (f :: fs))
-                    (envRel_local _ _ _ _ _ _ hrel k1 k2 k3 hm)
+                    (envRel_local fx _ _ _ _ _ _ hrel hk hm (fun _ e => by cases e))
                   refine ⟨F + 3, ?_⟩
                   rw [run_step_el fx F (.cs n) n nmP rest (f :: fs) _ hmn hnb (invoke_def fx F n nmP rest _ _ hlm hparts)]
                   exact run_mono fx F 2 _ _ hF
@@ -894,12 +1595,12 @@ theorem sim (fx : Bool) : ∀ (fuel : Nat) (st : TSt) (v : List Nat), texRun fra
                 by_cases hok : fragOk nm m = true
                 · simp only [hok, if_true] at h
                   obtain ⟨pt, items, rfl, hparts, h9, hpre, hdel, hb⟩ := readDefParts_of_texReadDef rest nm m rest' hd
-                  obtain ⟨k1, k2, k3⟩ := fragOk_names _ _ hok
+                  have hk := fragOk_names _ _ hok
                   have hm : MRel (some (.defn (renderPText pt) (some (renderBody items)))) (some (.macro pt items)) :=
                     ⟨rfl, rfl, wf_of_frag nm pt items h9 hpre hdel hb hok⟩
                   obtain ⟨F, hF⟩ := ih (assignGlobal nm (.macro pt items) ⟨rest', cur, saved⟩) v h
                     (setGlobal nm (.defn (renderPText pt) (some (renderBody items))) (dropLocals nm (f :: fs)))
-                    (envRel_global nm _ _ k1 k2 k3 hm fs f (cur :: saved) hrel)
+                    (envRel_global fx nm _ _ hk hm (fun _ e => by cases e) fs f (cur :: saved) hrel)
                   refine ⟨F + 3, ?_⟩
                   rw [run_step_el fx F (.cs n) n nmP rest (f :: fs) _ hmn hnb (invoke_gdef fx F n nmP rest _ _ hlm hparts)]
                   exact run_mono fx F 2 _ _ hF
@@ -924,15 +1625,16 @@ theorem sim (fx : Bool) : ∀ (fuel : Nat) (st : TSt) (v : List Nat), texRun fra
                     simp only [hpb, Bool.false_eq_true, if_false] at h
                     by_cases hok : fragOk nm m' = true
                     · simp only [hok, if_true] at h
-                      obtain ⟨s1, s2, s3⟩ := good_defined hgood src m' hls
-                      obtain ⟨k1, k2, k3⟩ := fragOk_names _ _ hok
-                      have hrs := hgood.rel src s1 s2
+                      have hsr := good_defined hgood src m' hls
+                      have hk := fragOk_names _ _ hok
+                      have hrs := hgood.rel src hsr
                       rw [hls] at hrs
                       obtain ⟨M, hM⟩ := mrel_some hrs
                       rw [hM] at hrs
+                      have s3 : src ≠ eqN := fun e => hsr (e ▸ (by decide : eqN ∈ reservedNames))
                       obtain ⟨r0, hp1, hp2⟩ := let_parts rest nm src rest' hd s3
                       obtain ⟨F, hF⟩ := ih (assignLocal nm m' ⟨rest', cur, saved⟩) v h
-                        (setLocal nm M (f :: fs)) (envRel_local _ _ _ _ _ _ hrel k1 k2 k3 hrs)
+                        (setLocal nm M (f :: fs)) (envRel_local fx _ _ _ _ _ _ hrel hk hrs (notEa_of_good hgood src m' hls))
                       refine ⟨F + 3, ?_⟩
                       rw [run_step_el fx F (.cs n) n nmP rest (f :: fs) _ hmn hnb
                         (invoke_let fx F n nmP nm src rest r0 rest' _ hlm hp1 hp2), letCs_of_lookup nm src M _ hM]
@@ -946,7 +1648,7 @@ theorem sim (fx : Bool) : ∀ (fuel : Nat) (st : TSt) (v : List Nat), texRun fra
               exact run_mono fx F 2 _ _ hF
             case begingroup.bgroup =>
               simp only at h
-              obtain ⟨F, hF⟩ := ih ⟨rest, cur, cur :: saved⟩ v h (push (f :: fs)) (envRel_push _ _ _ hrel)
+              obtain ⟨F, hF⟩ := ih ⟨rest, cur, cur :: saved⟩ v h (push (f :: fs)) (envRel_push fx _ _ _ hrel)
               refine ⟨F + 3, ?_⟩
               rw [run_step_el fx F (.cs n) n nmP rest (f :: fs) _ hmn hnb (invoke_bgroup fx F n nmP rest _ hlm)]
               exact run_mono fx F 2 _ _ hF
@@ -956,14 +1658,138 @@ theorem sim (fx : Bool) : ∀ (fuel : Nat) (st : TSt) (v : List Nat), texRun fra
               | nil => simp at h
               | cons tb sv =>
                 simp only at h
-                obtain ⟨F, hF⟩ := ih ⟨rest, tb, sv⟩ v h (pop (f :: fs)) (envRel_pop _ _ _ _ hrel)
+                obtain ⟨F, hF⟩ := ih ⟨rest, tb, sv⟩ v h (pop (f :: fs)) (envRel_pop fx _ _ _ _ hrel)
                 refine ⟨F + 3, ?_⟩
                 rw [run_step_el fx F (.cs n) n nmP rest (f :: fs) _ hmn hnb (invoke_egroup fx F n nmP rest _ hlm)]
                 exact run_mono fx F 2 _ _ hF
+            case newcommand.newcommand =>
+              simp only at h
+              cases hd : texReadNewcommand rest with
+              | error e => simp [hd] at h
+              | ok r =>
+                obtain ⟨nm, m, rest'⟩ := r
+                simp only [hd] at h
+                cases hlk : List.lookup nm cur with
+                | some m0 => simp [hlk] at h
+                | none =>
+                  simp only [hlk, Option.isSome_none, Bool.false_eq_true, if_false] at h
+                  by_cases hok : fragOk nm m = true
+                  · simp only [hok, if_true] at h
+                    obtain ⟨k, o, items, rfl, h9, ho, hb, hinv⟩ := newcommand_parts rest nm m rest' hd
+                    have hk := fragOk_names _ _ hok
+                    have hnone : lookup nm (f :: fs) = none := by
+                      have := hgood.rel nm hk; rw [hlk] at this; exact mrel_none this
+                    have hm : MRel (some (.newcmd k o (some (renderBody items)))) (some (.latex k o items)) :=
+                      ⟨rfl, rfl, rfl, wf_latex_of_frag nm k o items hb hok, ho⟩
+                    obtain ⟨F, hF⟩ := ih (assignLocal nm (.latex k o items) ⟨rest', cur, saved⟩) v h
+                      (setLocal nm (.newcmd k o (some (renderBody items))) (f :: fs))
+                      (envRel_local fx _ _ _ _ _ _ hrel hk hm (fun _ e => by cases e))
+                    refine ⟨F + 3, ?_⟩
+                    rw [run_step_el fx F (.cs n) n nmP rest (f :: fs) _ hmn hnb (hinv fx F n nmP _ hlm),
+                      newcommand_fresh nm k o _ _ hnone]
+                    exact run_mono fx F 2 _ _ hF
+                  · simp [hok] at h
+            case renewcommand.newcommand =>
+              simp only at h
+              cases hd : texReadNewcommand rest with
+              | error e => simp [hd] at h
+              | ok r =>
+                obtain ⟨nm, m, rest'⟩ := r
+                simp only [hd] at h
+                cases hlk : List.lookup nm cur with
+                | none => simp [hlk] at h
+                | some m0 =>
+                  simp only [hlk, Option.isNone_some, Bool.false_eq_true, if_false] at h
+                  by_cases hpb : primBound cur nm = true
+                  · simp [hpb] at h
+                  simp only [hpb, Bool.false_eq_true, if_false] at h
+                  by_cases hok : fragOk nm m = true
+                  · simp only [hok, if_true] at h
+                    obtain ⟨k, o, items, rfl, h9, ho, hb, hinv⟩ := newcommand_parts rest nm m rest' hd
+                    have hk := fragOk_names _ _ hok
+                    have hm : MRel (some (.newcmd k o (some (renderBody items)))) (some (.latex k o items)) :=
+                      ⟨rfl, rfl, rfl, wf_latex_of_frag nm k o items hb hok, ho⟩
+                    have hrn0 := hgood.rel nm hk
+                    rw [hlk] at hrn0
+                    have hset : newcommand nm k o (some (renderBody items)) (f :: fs)
+                        = setLocal nm (.newcmd k o (some (renderBody items))) (f :: fs) := by
+                      cases m0 with
+                      | «macro» pt0 it0 => exact newcommand_over_defn _ _ _ _ _ _ _ (mrel_macro hrn0).1
+                      | latex k0 o0 it0 => exact newcommand_over_newcmd _ _ _ _ _ _ _ _ (mrel_latex hrn0).1
+                      | prim q0 => simp [primBound, hlk] at hpb
+                    obtain ⟨F, hF⟩ := ih (assignLocal nm (.latex k o items) ⟨rest', cur, saved⟩) v h
+                      (setLocal nm (.newcmd k o (some (renderBody items))) (f :: fs))
+                      (envRel_local fx _ _ _ _ _ _ hrel hk hm (fun _ e => by cases e))
+                    refine ⟨F + 3, ?_⟩
+                    rw [run_step_el fx F (.cs n) n nmP rest (f :: fs) _ hmn hnb (hinv fx F n nmP _ hlm), hset]
+                    exact run_mono fx F 2 _ _ hF
+                  · simp [hok] at h
 
-/-! ### the initial tables of the fragment -/
+/-! ### the initial tables -/
 
-def nm (s : String) : Name := s.toList.map Char.toNat
+theorem lookup_single (n : Name) (f : Frame) : lookup n [f] = f.lookup n := by
+  simp only [lookup]; cases f.lookup n <;> rfl
+
+theorem lookup_none_of_not_mem {β : Type} (n : Name) : ∀ (l : List (Name × β)), n ∉ l.map Prod.fst → l.lookup n = none := by
+  intro l
+  induction l with
+  | nil => intro _; rfl
+  | cons x xs ih =>
+    intro h
+    simp only [List.map_cons, List.mem_cons, not_or] at h
+    have hb : (n == x.1) = false := by simp [h.1]
+    simp only [List.lookup, hb]; exact ih h.2
+
+theorem lookup_mem_snd {β : Type} (n : Name) (v : β) : ∀ (l : List (Name × β)), l.lookup n = some v → v ∈ l.map Prod.snd := by
+  intro l
+  induction l with
+  | nil => intro h; simp [List.lookup] at h
+  | cons x xs ih =>
+    intro h
+    by_cases hb : n = x.1
+    · subst hb; simp [List.lookup] at h; simp [h]
+    · have : (n == x.1) = false := by simp [hb]
+      simp only [List.lookup, this] at h
+      simp [ih h]
+
+/-- decidable form of `MRel` for primitives and undefined names -/
+def mrelPrimB : Option Meaning → Option TMeaning → Bool
+  | none, none => true
+  | some (.prim p n), some (.prim q) => primRel p q && (p != .endcsname || n == endcsnameName)
+  | _, _ => false
+
+theorem mrel_of_mrelPrimB {a : Option Meaning} {b : Option TMeaning} (h : mrelPrimB a b = true) : MRel a b := by
+  match a, b, h with
+  | none, none, _ => trivial
+  | some (.prim p n), some (.prim q), h =>
+    simp only [mrelPrimB, Bool.and_eq_true, Bool.or_eq_true, bne_iff_ne, ne_eq, beq_iff_eq] at h
+    exact ⟨h.1, fun hp => by rcases h.2 with h2 | h2; exact absurd hp h2; exact h2⟩
+
+/-- a frame of primitives against a table of primitives -/
+theorem good_of_tables (fx : Bool) (fr : Frame) (tb : Table)
+    (hkeys : ∀ x ∈ tb.map Prod.fst, mrelPrimB (fr.lookup x) (tb.lookup x) = true)
+    (hextra : ∀ x ∈ fr.map Prod.fst, x ∈ tb.map Prod.fst ∨ x ∈ reservedNames)
+    (hbg : fr.lookup bgroupN = some (.prim .bgroup bgroupN)) (heg : fr.lookup egroupN = some (.prim .egroup egroupN))
+    (hres : ∀ n ∈ reservedNames, tb.lookup n = none)
+    (hea : fx = false → ∀ v ∈ tb.map Prod.snd, v ≠ .prim .expandafter) :
+    Good fx [fr] tb := by
+  refine ⟨?_, ?_, ?_, hres, ?_⟩
+  · intro n hn
+    rw [lookup_single]
+    by_cases hm : n ∈ tb.map Prod.fst
+    · exact mrel_of_mrelPrimB (hkeys n hm)
+    · have h1 : tb.lookup n = none := lookup_none_of_not_mem n tb hm
+      have h2 : fr.lookup n = none := by
+        apply lookup_none_of_not_mem
+        intro hf
+        rcases hextra n hf with h | h
+        · exact hm h
+        · exact hn h
+      rw [h1, h2]; trivial
+  · rw [lookup_single]; exact hbg
+  · rw [lookup_single]; exact heg
+  · intro hf n hl
+    exact hea hf _ (lookup_mem_snd n _ tb hl) rfl
 
 /-- (name, model primitive, TeX primitive) of the fragment {definitions, calls, groups, `\let`, `\relax`} -/
 def fragPairs : List (Name × Prim × TPrim) :=
@@ -981,194 +1807,188 @@ def fragTable : Table := tblOf fragPairs
 /-- model side: the same primitives (plus the classes the brace characters resolve to) in the global frame -/
 def fragEnv : Env := [envOf fragPairs ++ braceFrame]
 
-theorem pairs_rel (extra : Frame) (n : Name) (he : extra.lookup n = none) :
-    ∀ (l : List (Name × Prim × TPrim)), (∀ x ∈ l, primRel x.2.1 x.2.2 = true) →
-    MRel ((envOf l ++ extra).lookup n) ((tblOf l).lookup n) := by
-  intro l
-  induction l with
-  | nil => intro _; simp [envOf, tblOf, he, MRel]
-  | cons x xs ih =>
-    intro h
-    obtain ⟨k, p, q⟩ := x
-    have hx := h (k, p, q) List.mem_cons_self
-    have := ih (fun y hy => h y (List.mem_cons_of_mem _ hy))
-    by_cases hk : n = k
-    · subst hk; simpa [envOf, tblOf, List.lookup, MRel] using hx
-    · have hb : (n == k) = false := by simp [hk]
-      simpa [envOf, tblOf, List.lookup, hb] using this
+theorem envRel_frag (fx : Bool) : EnvRel fx fragEnv [fragTable] :=
+  ⟨good_of_tables fx _ fragTable (by decide) (by decide) (by decide) (by decide) (by decide) (fun _ => by decide), trivial⟩
 
-theorem lookup_single (n : Name) (f : Frame) : lookup n [f] = f.lookup n := by
-  simp only [lookup]; cases f.lookup n <;> rfl
+/-- the whole macro language: the model's initial frame against the Spec's primitive table (repaired variant of D49) -/
+theorem envRel_language : EnvRel true initEnv [primTable] :=
+  ⟨good_of_tables true prims primTable (by decide) (by decide) (by decide) (by decide) (by decide) (fun h => by cases h), trivial⟩
 
-theorem tblOf_none (n : Name) : ∀ (l : List (Name × Prim × TPrim)), (∀ x ∈ l, x.1 ≠ n) → (tblOf l).lookup n = none := by
-  intro l
-  induction l with
-  | nil => intro _; rfl
-  | cons x xs ih =>
-    intro h
-    have hx := h x List.mem_cons_self
-    have hb : (n == x.1) = false := by simp [Ne.symm hx]
-    simp only [tblOf, List.map, List.lookup, hb]
-    exact ih (fun y hy => h y (List.mem_cons_of_mem _ hy))
+/-- everything but `\expandafter`: (name, model primitive, TeX primitive) -/
+def noEAPairs : List (Name × Prim × TPrim) :=
+  fragPairs ++ [ (nm "newcommand", .newcommand, .newcommand), (nm "renewcommand", .newcommand, .renewcommand),
+    (nm "csname", .csname, .csname), (nm "endcsname", .endcsname, .endcsname) ]
 
-theorem fragTable_none (n : Name) (h : ∀ x ∈ fragPairs, x.1 ≠ n) : fragTable.lookup n = none :=
-  tblOf_none n fragPairs h
+/-- TeX side: all primitives of the macro language except `\expandafter` -/
+def noEATable : Table := tblOf noEAPairs
+/-- model side: the corresponding classes -/
+def noEAEnv : Env := [envOf noEAPairs ++ braceFrame]
 
-theorem envRel_frag : EnvRel fragEnv [fragTable] := by
-  refine ⟨⟨?_, ?_, ?_, ?_, ?_, ?_⟩, trivial⟩
-  · intro n h1 h2
-    show MRel (lookup n [envOf fragPairs ++ braceFrame]) _
-    rw [lookup_single]
-    apply pairs_rel
-    · have a : (n == bgroupN) = false := by simp [h1]
-      have b : (n == egroupN) = false := by simp [h2]
-      simp [braceFrame, List.lookup, a, b]
-    · decide
-  · decide
-  · decide
-  · exact fragTable_none _ (by decide)
-  · exact fragTable_none _ (by decide)
-  · exact fragTable_none _ (by decide)
+theorem envRel_noEA (fx : Bool) : EnvRel fx noEAEnv [noEATable] :=
+  ⟨good_of_tables fx _ noEATable (by decide) (by decide) (by decide) (by decide) (by decide) (fun _ => by decide), trivial⟩
 
-/-- **program level**: every successful run of the independent TeX evaluator inside the fragment is reproduced,
-    with the same visible text, by the model of plasTeX's loop (either variant of D49), given enough fuel -/
+/-- fragment {`\\def`, `\\gdef`, calls, groups, `\\let`, `\\relax`}: both variants of D49 -/
 theorem run_of_texRun_frag (fx : Bool) (fuel : Nat) (p : List Tok) (v : List Nat)
     (h : texRun fragOk fuel ⟨p, fragTable, []⟩ = .ok v) : ∃ F, run fx F ⟨p, fragEnv⟩ = .ok v :=
-  sim fx fuel ⟨p, fragTable, []⟩ v h fragEnv envRel_frag
+  sim fx fuel ⟨p, fragTable, []⟩ v h fragEnv (envRel_frag fx)
 
-/-! ### `\\newcommand` macros -/
+/-- everything but `\\expandafter`: both variants of D49 -/
+theorem run_of_texRun_noEA (fx : Bool) (fuel : Nat) (p : List Tok) (v : List Nat)
+    (h : texRun fragOk fuel ⟨p, noEATable, []⟩ = .ok v) : ∃ F, run fx F ⟨p, noEAEnv⟩ = .ok v :=
+  sim fx fuel ⟨p, noEATable, []⟩ v h noEAEnv (envRel_noEA fx)
 
-theorem readBracket_plain (r : List Tok) : ∀ (p : List Tok),
-    (∀ x ∈ p, isOpenBr x = false ∧ isCloseBr x = false) → readBracket 1 (p ++ rBrack :: r) = (p, r) := by
-  intro p
-  induction p with
-  | nil => intro _; simp [readBracket, rBrack, isOpenBr, isCloseBr]
-  | cons x xs ih =>
-    intro h
-    have hx := h x List.mem_cons_self
-    have := ih (fun y hy => h y (List.mem_cons_of_mem _ hy))
-    simp [readBracket, hx.1, hx.2, this]
+/-- the whole macro language from the model's own initial frame: repaired variant of D49 -/
+theorem run_of_texRun_language (fuel : Nat) (p : List Tok) (v : List Nat)
+    (h : texRun fragOk fuel ⟨p, primTable, []⟩ = .ok v) : ∃ F, run true F ⟨p, initEnv⟩ = .ok v :=
+  sim true fuel ⟨p, primTable, []⟩ v h initEnv envRel_language
 
-theorem readArgs_of_texMandatory : ∀ (n : Nat) (s : List Tok) (args : List (List Tok)) (rest : List Tok),
-    texMandatory n s = some (args, rest) → nf3Mandatory n s = true →
-    readArgs n s = (args.map some, rest) ∧ args.length = n := by
-  intro n
-  induction n with
-  | zero => intro s args rest h _; simp [texMandatory] at h; obtain ⟨rfl, rfl⟩ := h; simp [readArgs]
-  | succ n ih =>
-    intro s args rest h hn
-    simp only [texMandatory] at h
-    cases hu : texUndelimited s with
-    | none => simp [hu] at h
-    | some ar =>
-      obtain ⟨a, r⟩ := ar
-      simp only [hu, Option.map_eq_some_iff] at h
-      obtain ⟨⟨as, r'⟩, hx, heq⟩ := h
-      simp at heq; obtain ⟨rfl, rfl⟩ := heq
-      simp only [nf3Mandatory, hu, Bool.and_eq_true] at hn
-      have hr := readArgument_of_texUndelimited s a r hu (noMathHead_spec s hn.1)
-      obtain ⟨e1, e2⟩ := ih r as r' hx hn.2
-      simp [readArgs, hr, e1, e2]
+/-! ### a run under a stricter filter is a run under a weaker one -/
 
-theorem isAnyBracket_spec (x : Tok) (h : isAnyBracket x = false) : isOpenBr x = false ∧ isCloseBr x = false := by
-  cases x with
-  | ch cat c =>
-    by_cases h1 : c = 91
-    · subst h1; simp [isAnyBracket] at h
-    · by_cases h2 : c = 93
-      · subst h2; simp [isAnyBracket] at h
-      · constructor
-        · unfold isOpenBr; split
-          · rename_i heq; simp at heq; exact absurd heq.2 h1
-          · rfl
-        · unfold isCloseBr; split
-          · rename_i heq; simp at heq; exact absurd heq.2 h2
-          · rfl
-  | cs n => exact ⟨rfl, rfl⟩
-  | el n => exact ⟨rfl, rfl⟩
-
-theorem lbrack_open (t : Tok) (h : isLBrack t = true) : isOpenBr t = true := by
-  cases t with
-  | ch cat c => simp [isLBrack] at h; split at h <;> simp_all [isOpenBr]
-  | cs n => simp [isLBrack] at h
-  | el n => simp [isLBrack] at h
-
-/-- **One call of a `\\newcommand` macro in the model = one call in LaTeX/TeX**: optional argument absent (default) or
-    present (bracket content, NF-prog 3), any number of mandatory arguments, any replacement text. -/
-theorem invokeNewcommand_of_texLatexCall (nargs : Nat) (opt : Option (List Tok)) (items : List BItem)
-    (s out rest : List Tok) (hw : ∀ it ∈ items, WFItem nargs it) (ho : opt.isSome = true → 1 ≤ nargs)
-    (hopen : ∀ t ts, skipBlanks s = t :: ts → isOpenBr t = true → isLBrack t = true)
-    (h : texLatexCall nargs opt items s = .ok (out, rest)) :
-    invokeNewcommand nargs opt (renderBody items) s = .ok (out, rest) := by
-  unfold texLatexCall at h
-  cases opt with
-  | none =>
-    simp only at h
-    cases hm : texMandatory nargs s with
-    | none => simp [hm] at h
-    | some ar =>
-      obtain ⟨args, rest'⟩ := ar
-      simp only [hm] at h
-      by_cases hn : nf3Mandatory nargs s = true
-      · simp only [hn, if_true, Except.ok.injEq, Prod.mk.injEq] at h
-        obtain ⟨rfl, rfl⟩ := h
-        obtain ⟨e1, e2⟩ := readArgs_of_texMandatory nargs s args rest' hm hn
-        have hs : substBody (renderBody items) (none :: args.map some) = .ok (texSubst items args) :=
-          substGo_render args items (by simpa [e2] using hw)
-        simp [invokeNewcommand, collectNewcommand, e1, hs, Except.map]
-      · simp [hn] at h
-  | some d =>
-    have h1 : 1 ≤ nargs := ho rfl
-    simp only at h
-    cases hopt : texOptional d s with
-    | none => simp [hopt] at h
-    | some ar =>
-      obtain ⟨a, r⟩ := ar
-      simp only [hopt] at h
-      cases hm : texMandatory (nargs - 1) r with
-      | none => simp [hm] at h
-      | some ar2 =>
-        obtain ⟨args, rest'⟩ := ar2
-        simp only [hm] at h
-        by_cases hn : (nf3Optional s && nf3Mandatory (nargs - 1) r) = true
-        · simp only [hn, if_true, Except.ok.injEq, Prod.mk.injEq] at h
-          obtain ⟨rfl, rfl⟩ := h
-          simp only [Bool.and_eq_true] at hn
-          obtain ⟨e1, e2⟩ := readArgs_of_texMandatory (nargs - 1) r args rest' hm hn.2
-          have hs : substBody (renderBody items) (none :: (a :: args).map some) = .ok (texSubst items (a :: args)) :=
-            substGo_render (a :: args) items (by simpa [e2, Nat.sub_add_cancel h1] using hw)
-          -- the optional argument: same value, same rest
-          have key : optValue (readOptional s).1 d = a ∧ (readOptional s).2 = r := by
-            unfold texOptional at hopt
-            unfold readOptional
-            rw [dropSpaces_eq_skipBlanks]
-            cases hsb : skipBlanks s with
-            | nil => simp [hsb] at hopt; simp [optValue, hopt.1, hopt.2]
-            | cons t ts =>
-              simp only [hsb] at hopt
-              by_cases hl : isLBrack t = true
-              · simp only [hl, if_true, Option.map_eq_some_iff] at hopt
-                obtain ⟨⟨p, r2⟩, hscan, heq⟩ := hopt
-                simp at heq; obtain ⟨rfl, rfl⟩ := heq
-                have hnfp : ∀ x ∈ p, isOpenBr x = false ∧ isCloseBr x = false := by
-                  have := hn.1
-                  simp only [nf3Optional, hsb, hl, if_true, hscan, Bool.not_eq_true', List.any_eq_false] at this
-                  intro x hx; exact isAnyBracket_spec x (by simpa using this x hx)
-                have hsplit := texScan_split _ _ _ _ _ hscan
-                have hrb : readBracket 1 ts = (p, r2) := by
-                  rw [hsplit]; simpa using readBracket_plain r2 p hnfp
-                simp [optValue, lbrack_open t hl, hrb, stripDelimited_eq_texStrip]
-              · have hnot : isOpenBr t = false := by
-                  cases ho : isOpenBr t with
-                  | false => rfl
-                  | true => exact absurd (hopen t ts hsb ho) hl
-                simp only [hl, Bool.false_eq_true, if_false, Option.some.injEq, Prod.mk.injEq] at hopt
-                obtain ⟨rfl, rfl⟩ := hopt
-                simp [optValue, hnot]
-          simp only [invokeNewcommand, collectNewcommand]
-          rw [key.1, key.2, e1]
-          simp only [List.map] at hs
-          simp [hs, Except.map]
-        · simp [hn] at h
+theorem texRun_weaken (ok1 ok2 : Name → TMeaning → Bool) (hok : ∀ n m, ok1 n m = true → ok2 n m = true) :
+    ∀ (fuel : Nat) (st : TSt) (v : List Nat), texRun ok1 fuel st = .ok v → texRun ok2 fuel st = .ok v := by
+  intro fuel
+  induction fuel with
+  | zero => intro st v h; simp [texRun] at h
+  | succ fuel ih =>
+    intro st v h
+    obtain ⟨input, cur, saved⟩ := st
+    unfold texRun at h ⊢
+    simp only at h ⊢
+    by_cases hbig : input.length > 4000
+    · simp [hbig] at h
+    simp only [hbig, if_false] at h ⊢
+    cases input with
+    | nil => exact h
+    | cons t rest =>
+      cases t with
+      | el n => simp at h
+      | ch cat c =>
+        simp only at h ⊢
+        by_cases h1 : cat = 11 ∨ cat = 12
+        · simp only [h1, if_true] at h ⊢
+          cases hr : texRun ok1 fuel ⟨rest, cur, saved⟩ with
+          | error e => simp [hr, Except.map] at h
+          | ok w => rw [ih _ _ hr]; simpa [hr] using h
+        · simp only [h1, if_false] at h ⊢
+          by_cases h2 : cat = 10
+          · simp only [h2, if_true] at h ⊢; exact ih _ _ h
+          · simp only [h2, if_false] at h ⊢
+            by_cases h3 : cat = 1
+            · simp only [h3, if_true] at h ⊢; exact ih _ _ h
+            · simp only [h3, if_false] at h ⊢
+              by_cases h4 : cat = 2
+              · simp only [h4, if_true] at h ⊢
+                cases saved with
+                | nil => simp at h
+                | cons a b => exact ih _ _ h
+              · simp [h4] at h
+      | cs n =>
+        simp only at h ⊢
+        cases hl : List.lookup n cur with
+        | none => simp [hl] at h
+        | some m =>
+          simp only [hl] at h ⊢
+          have viaExpand : ∀ {X : Except TErr (Option (List Tok))},
+              (match X with
+                | .error e => (.error e : Except TErr (List Nat))
+                | .ok none => .error (.outside "unexpected unexpandable")
+                | .ok (some inp) => texRun ok1 fuel ⟨inp, cur, saved⟩) = .ok v →
+              (match X with
+                | .error e => (.error e : Except TErr (List Nat))
+                | .ok none => .error (.outside "unexpected unexpandable")
+                | .ok (some inp) => texRun ok2 fuel ⟨inp, cur, saved⟩) = .ok v := by
+            intro X hX
+            match X, hX with
+            | .ok (some inp), hX => exact ih _ _ hX
+          cases m with
+          | latex k o b => exact viaExpand h
+          | «macro» pt items => exact viaExpand h
+          | prim q =>
+            cases q
+            case csname => exact viaExpand h
+            case expandafter => exact viaExpand h
+            case endcsname => simp at h
+            case relax => exact ih _ _ h
+            case begingroup => exact ih _ _ h
+            case endgroup =>
+              cases saved with
+              | nil => simp at h
+              | cons a b => exact ih _ _ h
+            case def_ =>
+              simp only at h ⊢
+              cases hd : texReadDef rest with
+              | error e => simp [hd] at h
+              | ok r =>
+                obtain ⟨nm, m, rest'⟩ := r
+                simp only [hd] at h ⊢
+                by_cases hpb : primBound cur nm = true
+                · simp [hpb] at h
+                simp only [hpb, Bool.false_eq_true, if_false] at h ⊢
+                by_cases hk : ok1 nm m = true
+                · simp only [hk, hok nm m hk, if_true] at h ⊢; exact ih _ _ h
+                · simp [hk] at h
+            case gdef =>
+              simp only at h ⊢
+              cases hd : texReadDef rest with
+              | error e => simp [hd] at h
+              | ok r =>
+                obtain ⟨nm, m, rest'⟩ := r
+                simp only [hd] at h ⊢
+                by_cases hpb : primBound cur nm = true
+                · simp [hpb] at h
+                simp only [hpb, Bool.false_eq_true, if_false] at h ⊢
+                by_cases hk : ok1 nm m = true
+                · simp only [hk, hok nm m hk, if_true] at h ⊢; exact ih _ _ h
+                · simp [hk] at h
+            case newcommand =>
+              simp only at h ⊢
+              cases hd : texReadNewcommand rest with
+              | error e => simp [hd] at h
+              | ok r =>
+                obtain ⟨nm, m, rest'⟩ := r
+                simp only [hd] at h ⊢
+                by_cases hs : (List.lookup nm cur).isSome = true
+                · simp [hs] at h
+                simp only [hs, Bool.false_eq_true, if_false] at h ⊢
+                by_cases hk : ok1 nm m = true
+                · simp only [hk, hok nm m hk, if_true] at h ⊢; exact ih _ _ h
+                · simp [hk] at h
+            case renewcommand =>
+              simp only at h ⊢
+              cases hd : texReadNewcommand rest with
+              | error e => simp [hd] at h
+              | ok r =>
+                obtain ⟨nm, m, rest'⟩ := r
+                simp only [hd] at h ⊢
+                by_cases hs : (List.lookup nm cur).isNone = true
+                · simp [hs] at h
+                simp only [hs, Bool.false_eq_true, if_false] at h ⊢
+                by_cases hpb : primBound cur nm = true
+                · simp [hpb] at h
+                simp only [hpb, Bool.false_eq_true, if_false] at h ⊢
+                by_cases hk : ok1 nm m = true
+                · simp only [hk, hok nm m hk, if_true] at h ⊢; exact ih _ _ h
+                · simp [hk] at h
+            case let_ =>
+              simp only at h ⊢
+              cases hd : texReadLet rest with
+              | none => simp [hd] at h
+              | some r =>
+                obtain ⟨nm, tsrc, rest'⟩ := r
+                cases tsrc with
+                | ch a b => simp [hd] at h
+                | el a => simp [hd] at h
+                | cs src =>
+                  simp only [hd] at h ⊢
+                  cases hls : List.lookup src cur with
+                  | none => simp [hls] at h
+                  | some m' =>
+                    simp only [hls] at h ⊢
+                    by_cases hpb : primBound cur nm = true
+                    · simp [hpb] at h
+                    simp only [hpb, Bool.false_eq_true, if_false] at h ⊢
+                    by_cases hk : ok1 nm m' = true
+                    · simp only [hk, hok nm m' hk, if_true] at h ⊢; exact ih _ _ h
+                    · simp [hk] at h
 
 end PlasVerif.Proofs.MacroRun
